@@ -16,7 +16,7 @@ Lemma marks_setA : forall s i a, marks (setA s i a) = marks s.
 Proof. reflexivity. Qed.
 
 Lemma send_marks : forall s a b x s', send s a b x = Ok s' -> marks s' = marks s.
-Proof. unfold send; intros s a b x s' E. destruct (a_bal (getA s a) <? x); inversion E; reflexivity. Qed.
+Proof. unfold send; intros s a b x s' E. destruct (negb (coins_valid x)); [discriminate|]. destruct (can_pay (a_bal (getA s a)) x); inversion E; reflexivity. Qed.
 
 Lemma set_key_marks : forall s x k s', set_key s x k = Ok s' -> marks s' = marks s.
 Proof. unfold set_key; intros s x k s' E. destruct (a_set (getA s x)); inversion E; reflexivity. Qed.
@@ -30,54 +30,96 @@ Proof. intros V [|x c] Hc; [congruence|]. unfold map_len; simpl List.length. lia
 Lemma map_len_zero : forall V (c : list (Z * V)), (0 <? map_len c) = false -> c = [].
 Proof. intros V [|x c] Hc; [reflexivity|]. unfold map_len in Hc; simpl List.length in Hc. lia. Qed.
 
+Lemma getA_setA : forall s i a j, getA (setA s i a) j = if j =? i then a else getA s j.
+Proof. intros. unfold getA, setA. simpl. destruct (j =? i); reflexivity. Qed.
+Lemma getA_setA_same : forall s i a, getA (setA s i a) i = a.
+Proof. intros. rewrite getA_setA, Z.eqb_refl. reflexivity. Qed.
+
 Section Facts.
+Variable v : variant.
 Variable H : string -> string.
 Variable minrew : Z.
-Notation step := (step H minrew).
-Notation exec := (exec H minrew).
-Notation run := (run H minrew).
-Notation ante := (ante H minrew).
+Notation step := (step v H minrew).
+Notation exec := (exec v H minrew).
+Notation run := (run v H minrew).
+Notation ante := (ante v H minrew).
+Notation handle := (handle v).
 
 Lemma exec_ok : forall s o s', step s o = Ok s' -> exec s o = s'.
 Proof. unfold Custody.exec; intros s o s' E; rewrite E; reflexivity. Qed.
 Lemma exec_not_ok : forall s o, is_ok (step s o) = false -> exec s o = s.
 Proof. unfold Custody.exec; intros s o E; destruct (step s o); simpl in E; congruence. Qed.
 
-(* ================================================================ 1. plain bank send is blocked while custodians exist *)
-Lemma bank_send_blocked : forall s sg to amt st c,
-  a_set (getA s sg) = Some st -> s_en st = true -> a_cust (getA s sg) = Some c -> c <> [] ->
-  exists e, step s (OBank sg to amt) = Err e.
+Lemma step_inv : forall s o s', step s o = Ok s' -> exists s1, ante s o = Ok s1 /\ handle s1 o = Ok s'.
+Proof. unfold Custody.step; intros s o s' E. destruct (ante s o) as [s1| |]; simpl in E; try discriminate. eauto. Qed.
+
+(* the decorator changes nothing, except the limit statuses of the signer of a bank send *)
+Lemma ante_inv : forall s o s1, ante s o = Ok s1 ->
+  s1 = s \/ exists st', s1 = setA s (signer o) (with_stat (getA s (signer o)) (Some st')).
 Proof.
-  intros s sg to amt st c Hs He Hc Hne.
+  intros s o s1 E. unfold Custody.ante in E. cbv zeta in E.
+  match type of E with bind ?X _ = _ => destruct X; simpl in E; try discriminate end.
+  destruct o; try (inversion E; auto; fail).
+  destruct (ante_bank v (getA s (signer (OBank sg to amt now))) to amt now) as [[st'|]| |]; simpl in E; try discriminate;
+    inversion E; eauto.
+Qed.
+
+Lemma ante_nonbank : forall s o s1, ante s o = Ok s1 ->
+  (match o with OBank _ _ _ _ => False | _ => True end) -> s1 = s.
+Proof.
+  intros s o s1 E Hn. unfold Custody.ante in E. cbv zeta in E.
+  match type of E with bind ?X _ = _ => destruct X; simpl in E; try discriminate end.
+  destruct o; try contradiction; inversion E; reflexivity.
+Qed.
+
+Lemma ante_marks : forall s o s1, ante s o = Ok s1 -> marks s1 = marks s.
+Proof. intros s o s1 E. destruct (ante_inv s o s1 E) as [->|[st' ->]]; reflexivity. Qed.
+
+(* everything but the limit statuses is as before the decorator *)
+Lemma ante_fields : forall s o s1 t, ante s o = Ok s1 ->
+  a_set (getA s1 t) = a_set (getA s t) /\ a_cust (getA s1 t) = a_cust (getA s t) /\ a_wl (getA s1 t) = a_wl (getA s t)
+  /\ a_lim (getA s1 t) = a_lim (getA s t) /\ a_pool (getA s1 t) = a_pool (getA s t) /\ a_bal (getA s1 t) = a_bal (getA s t).
+Proof.
+  intros s o s1 t E. destruct (ante_inv s o s1 E) as [->|[st' ->]]; [repeat split; reflexivity|].
+  rewrite getA_setA. destruct (t =? signer o) eqn:Et; [|repeat split; reflexivity].
+  assert (t = signer o) by lia; subst. repeat split; reflexivity.
+Qed.
+
+(* ================================================================ 1. plain bank send is blocked while custodians exist *)
+Lemma bank_send_blocked : forall s sg to amt now st c,
+  a_set (getA s sg) = Some st -> s_en st = true -> a_cust (getA s sg) = Some c -> c <> [] ->
+  exists e, step s (OBank sg to amt now) = Err e.
+Proof.
+  intros s sg to amt now st c Hs He Hc Hne.
   unfold Custody.step, Custody.ante, ante_bank; simpl signer; cbv zeta. rewrite Hs, He. simpl.
   rewrite Hc. rewrite (map_len_pos _ c Hne). simpl. eauto.
 Qed.
 
 (* without a custodian record the decorator dereferences nil: the transaction fails as well *)
-Lemma bank_send_fails_without_record : forall s sg to amt st,
+Lemma bank_send_fails_without_record : forall s sg to amt now st,
   a_set (getA s sg) = Some st -> s_en st = true -> a_cust (getA s sg) = None ->
-  is_ok (step s (OBank sg to amt)) = false.
+  is_ok (step s (OBank sg to amt now)) = false.
 Proof.
-  intros s sg to amt st Hs He Hc.
+  intros s sg to amt now st Hs He Hc.
   unfold Custody.step, Custody.ante, ante_bank; simpl signer; cbv zeta. rewrite Hs, He. simpl. rewrite Hc. reflexivity.
 Qed.
 
-Lemma bank_send_blocked_history : forall s0 ops sg to amt st c,
+Lemma bank_send_blocked_history : forall s0 ops sg to amt now st c,
   let s := run s0 ops in
   a_set (getA s sg) = Some st -> s_en st = true -> a_cust (getA s sg) = Some c -> c <> [] ->
-  exec s (OBank sg to amt) = s.
+  exec s (OBank sg to amt now) = s.
 Proof.
-  intros s0 ops sg to amt st c s Hs He Hc Hne.
-  destruct (bank_send_blocked s sg to amt st c Hs He Hc Hne) as [e E].
+  intros s0 ops sg to amt now st c s Hs He Hc Hne.
+  destruct (bank_send_blocked s sg to amt now st c Hs He Hc Hne) as [e E].
   apply exec_not_ok. rewrite E. reflexivity.
 Qed.
 
 (* ================================================================ 2. the whitelist restricts every plain bank send *)
-Lemma whitelist_restricts_bank_send : forall s sg to amt st w,
+Lemma whitelist_restricts_bank_send : forall s sg to amt now st w,
   a_set (getA s sg) = Some st -> s_wl st = true -> a_wl (getA s sg) = Some w -> bool_at to w = false ->
-  is_ok (step s (OBank sg to amt)) = false.
+  is_ok (step s (OBank sg to amt now)) = false.
 Proof.
-  intros s sg to amt st w Hs Hw Hl Hb.
+  intros s sg to amt now st w Hs Hw Hl Hb.
   unfold Custody.step, Custody.ante, ante_bank; simpl signer; cbv zeta. rewrite Hs.
   destruct (s_en st) eqn:He; simpl.
   - destruct (a_cust (getA s sg)) as [c|]; [|reflexivity].
@@ -85,62 +127,96 @@ Proof.
   - rewrite Hw, Hl, Hb. reflexivity.
 Qed.
 
-Lemma whitelist_restricts_history : forall s0 ops sg to amt st w,
+Lemma whitelist_restricts_history : forall s0 ops sg to amt now st w,
   let s := run s0 ops in
   a_set (getA s sg) = Some st -> s_wl st = true -> a_wl (getA s sg) = Some w -> bool_at to w = false ->
-  exec s (OBank sg to amt) = s.
+  exec s (OBank sg to amt now) = s.
 Proof. intros; apply exec_not_ok; eapply whitelist_restricts_bank_send; eauto. Qed.
 
-(* an accepted plain bank send: what the decorator established *)
-Lemma bank_send_accepted : forall s sg to amt s',
-  step s (OBank sg to amt) = Ok s' ->
+(* what the decorator established when it let a plain bank send pass *)
+Lemma ante_bank_ok : forall a to amt now r, ante_bank v a to amt now = Ok r ->
+  match a_set a with
+  | None => r = None
+  | Some st => (s_en st = true -> a_cust a = Some [])
+               /\ (s_wl st = true -> forall w, a_wl a = Some w -> bool_at to w = true)
+               /\ (if s_lim st then v_limits v = true /\ exists st', r = Some st' /\
+                      limits_fold (match a_lim a with Some l => l | None => [] end) now amt
+                                  (match a_stat a with Some x => x | None => [] end) = Ok st'
+                   else r = None)
+  end.
+Proof.
+  intros a to amt now r E. unfold ante_bank in E.
+  destruct (a_set a) as [st|] eqn:Hs; [|inversion E; reflexivity].
+  assert (A1 : s_en st = true -> a_cust a = Some []).
+  { intros He. rewrite He in E. destruct (a_cust a) as [c|]; simpl in E; [|discriminate].
+    destruct (0 <? map_len c) eqn:Hn; simpl in E; [discriminate|]. apply map_len_zero in Hn; subst; reflexivity. }
+  assert (E2 : (do _ <- (if s_wl st then match a_wl a with None => Ok tt | Some w => if bool_at to w then Ok tt else Err "not in whitelist" end else Ok tt);
+                if s_lim st then if v_limits v then do st' <- limits_fold (match a_lim a with Some l => l | None => [] end) now amt (match a_stat a with Some x => x | None => [] end); Ok (Some st') else Panic "nil limit statuses" else Ok None) = Ok r).
+  { destruct (s_en st); [|exact E]. destruct (a_cust a) as [c|]; simpl in E; [|discriminate].
+    destruct (0 <? map_len c); simpl in E; [discriminate|exact E]. }
+  clear E.
+  assert (A2 : s_wl st = true -> forall w, a_wl a = Some w -> bool_at to w = true).
+  { intros Hw w Hl. rewrite Hw, Hl in E2. destruct (bool_at to w); [reflexivity|discriminate]. }
+  split; [exact A1|]. split; [exact A2|].
+  assert (E3 : (if s_lim st then if v_limits v then do st' <- limits_fold (match a_lim a with Some l => l | None => [] end) now amt (match a_stat a with Some x => x | None => [] end); Ok (Some st') else Panic "nil limit statuses" else Ok None) = Ok r).
+  { destruct (s_wl st); [|exact E2]. destruct (a_wl a) as [w|]; [|exact E2]. destruct (bool_at to w); [exact E2|discriminate]. }
+  destruct (s_lim st); [|inversion E3; reflexivity].
+  destruct (v_limits v); [|discriminate]. split; [reflexivity|].
+  destruct (limits_fold _ now amt _) as [st'| |]; simpl in E3; try discriminate. inversion E3. eauto.
+Qed.
+
+Lemma bank_send_accepted : forall s sg to amt now s',
+  step s (OBank sg to amt now) = Ok s' ->
   match a_set (getA s sg) with
   | None => True
   | Some st => (s_en st = true -> a_cust (getA s sg) = Some [])
                /\ (s_wl st = true -> forall w, a_wl (getA s sg) = Some w -> bool_at to w = true)
-               /\ s_lim st = false
+               /\ (s_lim st = true -> v_limits v = true /\ exists st',
+                      limits_fold (match a_lim (getA s sg) with Some l => l | None => [] end) now amt
+                                  (match a_stat (getA s sg) with Some x => x | None => [] end) = Ok st')
   end.
 Proof.
-  intros s sg to amt s' E. unfold Custody.step, Custody.ante, ante_bank in E; simpl signer in E; cbv zeta in E.
-  destruct (a_set (getA s sg)) as [st|] eqn:Hs; [|exact I].
-  destruct (s_en st) eqn:He; simpl in E.
-  - destruct (a_cust (getA s sg)) as [c|] eqn:Hc; simpl in E; [|discriminate].
-    destruct (0 <? map_len c) eqn:Hn; simpl in E; [discriminate|].
-    apply map_len_zero in Hn; subst c.
-    destruct (s_wl st) eqn:Hw; simpl in E.
-    + destruct (a_wl (getA s sg)) as [w|] eqn:Hl; simpl in E.
-      * destruct (bool_at to w) eqn:Hb; simpl in E; [|discriminate].
-        destruct (s_lim st); simpl in E; [discriminate|]. repeat split; auto. intros _ w' Hw'; inversion Hw'; subst; auto.
-      * destruct (s_lim st); simpl in E; [discriminate|]. repeat split; auto. intros _ w' Hw'; discriminate.
-    + destruct (s_lim st); simpl in E; [discriminate|]. repeat split; auto; intros; discriminate.
-  - destruct (s_wl st) eqn:Hw; simpl in E.
-    + destruct (a_wl (getA s sg)) as [w|] eqn:Hl; simpl in E.
-      * destruct (bool_at to w) eqn:Hb; simpl in E; [|discriminate].
-        destruct (s_lim st); simpl in E; [discriminate|]. repeat split; auto; try discriminate. intros _ w' Hw'; inversion Hw'; subst; auto.
-      * destruct (s_lim st); simpl in E; [discriminate|]. repeat split; auto; try discriminate.
-    + destruct (s_lim st); simpl in E; [discriminate|]. repeat split; auto; intros; discriminate.
+  intros s sg to amt now s' E. destruct (step_inv _ _ _ E) as (s1 & Ea & _).
+  unfold Custody.ante in Ea. cbv zeta in Ea. simpl signer in Ea.
+  match type of Ea with bind ?X _ = _ => destruct X; simpl in Ea; try discriminate end.
+  destruct (ante_bank v (getA s sg) to amt now) as [r| |] eqn:Eb; simpl in Ea; try discriminate.
+  pose proof (ante_bank_ok _ _ _ _ _ Eb) as A.
+  destruct (a_set (getA s sg)) as [st|]; [|exact I].
+  destruct A as (A1 & A2 & A3). split; [exact A1|]. split; [exact A2|].
+  intros Hl. rewrite Hl in A3. destruct A3 as (Hv & st' & _ & Hf). eauto.
 Qed.
+End Facts.
 
-(* ================================================================ 3. a vote counts once per (address, target, hash as written) *)
+(* ================================================================ 3. a vote counts once per (address, target, vote key) *)
 Lemma mark_get_cons_other : forall f t h e l,
   mark_eqb f t h e = false -> mark_get f t h (e :: l) = mark_get f t h l.
 Proof. intros f t h e l E. unfold mark_get; simpl. rewrite E. reflexivity. Qed.
 
-Lemma mark_get_cons_same : forall f t h v l, mark_get f t h ((f, t, h, v) :: l) = Some v.
+Lemma mark_get_cons_same : forall f t h x l, mark_get f t h ((f, t, h, x) :: l) = Some x.
 Proof. intros. unfold mark_get; simpl. rewrite !Z.eqb_refl, String.eqb_refl. reflexivity. Qed.
 
-Lemma mark_eqb_true : forall f t h f' t' h' v, mark_eqb f t h (f', t', h', v) = true -> f = f' /\ t = t' /\ h = h'.
+Lemma mark_eqb_true : forall f t h f' t' h' x, mark_eqb f t h (f', t', h', x) = true -> f = f' /\ t = t' /\ h = h'.
 Proof.
-  unfold mark_eqb; intros f t h f' t' h' v E.
+  unfold mark_eqb; intros f t h f' t' h' x E.
   apply andb_prop in E; destruct E as [E E3]. apply andb_prop in E; destruct E as [E1 E2].
   apply String.eqb_eq in E3. split; [lia|split; [lia|assumption]].
 Qed.
 
-(* every step leaves the vote store alone or adds one mark at a key that had none *)
-Lemma marks_step : forall s o s', step s o = Ok s' ->
-  marks s' = marks s \/ exists f t h v, mark_get f t h (marks s) = None /\ marks s' = (f, t, h, v) :: marks s.
+Section Votes.
+Variable v : variant.
+Variable H : string -> string.
+Variable minrew : Z.
+Notation step := (step v H minrew).
+Notation exec := (exec v H minrew).
+Notation run := (run v H minrew).
+Notation ante := (ante v H minrew).
+Notation handle := (handle v).
+
+(* every handler leaves the vote store alone or adds one mark at a key that had none *)
+Lemma marks_handle : forall s o s', handle s o = Ok s' ->
+  marks s' = marks s \/ exists f t h x, mark_get f t h (marks s) = None /\ marks s' = (f, t, h, x) :: marks s.
 Proof.
-  intros s o s' E. unfold Custody.step in E. destruct (ante s o); simpl in E; try discriminate.
+  intros s o s' E.
   destruct o; simpl in E; unfold bind, rec_missing in E.
   - inversion E; auto.
   - repeat (dmatch_in E; try discriminate). inversion E; auto.
@@ -160,13 +236,15 @@ Proof.
   - repeat (dmatch_in E; try discriminate); try (inversion E; subst; left; reflexivity);
       left; eapply send_marks; eauto.
   - (* approve *)
-    destruct (mark_get f t h (marks s)) eqn:Hm; [inversion E; auto|].
-    repeat (dmatch_in E; try discriminate); inversion E; subst; right; exists f, t, h, 1; split; auto; simpl;
+    destruct (negb (voter_ok v (getA s t) f)); [discriminate|].
+    destruct (mark_get f t (mark_key v h) (marks s)) eqn:Hm; [inversion E; auto|].
+    repeat (dmatch_in E; try discriminate); inversion E; subst; right; exists f, t, (mark_key v h), 1; split; auto; simpl;
       repeat match goal with X : send _ _ _ _ = Ok _ |- _ => apply send_marks in X; simpl in X end; congruence.
   - (* decline *)
-    destruct (mark_get f t h (marks s)) eqn:Hm; [inversion E; auto|].
+    destruct (negb (voter_ok v (getA s t) f)); [discriminate|].
+    destruct (mark_get f t (mark_key v h) (marks s)) eqn:Hm; [inversion E; auto|].
     repeat (dmatch_in E; try discriminate); try (inversion E; subst; left; reflexivity).
-    right; exists f, t, h, (-1); split; auto. apply send_marks in E. simpl in E. exact E.
+    right; exists f, t, (mark_key v h), (-1); split; auto. apply send_marks in E. simpl in E. exact E.
   - (* confirm *)
     repeat (dmatch_in E; try discriminate); inversion E; subst; left; simpl;
       repeat match goal with X : send _ _ _ _ = Ok _ |- _ => apply send_marks in X; simpl in X end; congruence.
@@ -174,63 +252,75 @@ Proof.
   - repeat (dmatch_in E; try discriminate). left; eapply send_marks; eauto.
 Qed.
 
-Lemma marks_mono_exec : forall s o f t h v,
-  mark_get f t h (marks s) = Some v -> mark_get f t h (marks (exec s o)) = Some v.
+Lemma marks_step : forall s o s', step s o = Ok s' ->
+  marks s' = marks s \/ exists f t h x, mark_get f t h (marks s) = None /\ marks s' = (f, t, h, x) :: marks s.
 Proof.
-  intros s o f t h v Hm. unfold Custody.exec. destruct (step s o) as [s'| |] eqn:E; auto.
-  destruct (marks_step s o s' E) as [Eq|(f' & t' & h' & v' & Hn & Eq)]; rewrite Eq; auto.
-  destruct (mark_eqb f t h (f', t', h', v')) eqn:Em.
+  intros s o s' E. destruct (step_inv _ _ _ _ _ _ E) as (s1 & Ea & Eh).
+  pose proof (ante_marks _ _ _ _ _ _ Ea) as Em. rewrite <- Em. exact (marks_handle _ _ _ Eh).
+Qed.
+
+Lemma marks_mono_exec : forall s o f t h x,
+  mark_get f t h (marks s) = Some x -> mark_get f t h (marks (exec s o)) = Some x.
+Proof.
+  intros s o f t h x Hm. unfold Custody.exec. destruct (step s o) as [s'| |] eqn:E; auto.
+  destruct (marks_step s o s' E) as [Eq|(f' & t' & h' & x' & Hn & Eq)]; rewrite Eq; auto.
+  destruct (mark_eqb f t h (f', t', h', x')) eqn:Em.
   - apply mark_eqb_true in Em. destruct Em as (-> & -> & ->). congruence.
   - rewrite mark_get_cons_other; auto.
 Qed.
 
-Lemma marks_mono_run : forall ops s f t h v,
-  mark_get f t h (marks s) = Some v -> mark_get f t h (marks (run s ops)) = Some v.
+Lemma marks_mono_run : forall ops s f t h x,
+  mark_get f t h (marks s) = Some x -> mark_get f t h (marks (run s ops)) = Some x.
 Proof.
-  induction ops as [|o ops IH]; intros s f t h v Hm; simpl; auto.
+  induction ops as [|o ops IH]; intros s f t h x Hm; simpl; auto.
   apply IH. apply marks_mono_exec; assumption.
 Qed.
 
 (* an approval that changed anything left its mark ... *)
 Lemma approve_marks : forall s f t h s',
-  step s (OApprove f t h) = Ok s' -> s' <> s -> mark_get f t h (marks s') = Some 1.
+  step s (OApprove f t h) = Ok s' -> s' <> s -> mark_get f t (mark_key v h) (marks s') = Some 1.
 Proof.
-  intros s f t h s' E Hne. unfold Custody.step in E. destruct (ante s (OApprove f t h)); simpl in E; try discriminate.
-  unfold bind, rec_missing in E.
-  destruct (mark_get f t h (marks s)) eqn:Hm; [inversion E; congruence|].
-  repeat (dmatch_in E; try discriminate); inversion E; subst; simpl;
+  intros s f t h s' E Hne. destruct (step_inv _ _ _ _ _ _ E) as (s1 & Ea & Eh).
+  apply ante_nonbank in Ea; [|exact I]. subst s1. simpl in Eh. unfold bind, rec_missing in Eh.
+  destruct (negb (voter_ok v (getA s t) f)); [discriminate|].
+  destruct (mark_get f t (mark_key v h) (marks s)) eqn:Hm; [inversion Eh; congruence|].
+  repeat (dmatch_in Eh; try discriminate); inversion Eh; subst; simpl;
     repeat match goal with X : send _ _ _ _ = Ok _ |- _ => apply send_marks in X; simpl in X end;
     try match goal with X : marks _ = _ |- _ => rewrite X end; apply mark_get_cons_same.
 Qed.
 
-(* ... and a marked (from, target, hash) approves nothing any more *)
-Lemma approve_marked_noop : forall s f t h v,
-  mark_get f t h (marks s) = Some v -> exec s (OApprove f t h) = s.
+(* ... and a marked (from, target, key) approves and declines nothing any more *)
+Lemma approve_marked_noop : forall s f t h x,
+  mark_get f t (mark_key v h) (marks s) = Some x -> exec s (OApprove f t h) = s.
 Proof.
-  intros s f t h v Hm. unfold Custody.exec, Custody.step. destruct (ante s (OApprove f t h)); simpl; auto.
-  rewrite Hm. reflexivity.
+  intros s f t h x Hm. unfold Custody.exec, Custody.step. destruct (ante s (OApprove f t h)) as [s1| |] eqn:Ea; simpl; auto.
+  apply ante_nonbank in Ea; [|exact I]. subst s1.
+  destruct (negb (voter_ok v (getA s t) f)); [reflexivity|]. rewrite Hm. reflexivity.
 Qed.
 
-Lemma decline_marked_noop : forall s f t h v,
-  mark_get f t h (marks s) = Some v -> exec s (ODecline f t h) = s.
+Lemma decline_marked_noop : forall s f t h x,
+  mark_get f t (mark_key v h) (marks s) = Some x -> exec s (ODecline f t h) = s.
 Proof.
-  intros s f t h v Hm. unfold Custody.exec, Custody.step. destruct (ante s (ODecline f t h)); simpl; auto.
-  rewrite Hm. reflexivity.
+  intros s f t h x Hm. unfold Custody.exec, Custody.step. destruct (ante s (ODecline f t h)) as [s1| |] eqn:Ea; simpl; auto.
+  apply ante_nonbank in Ea; [|exact I]. subst s1.
+  destruct (negb (voter_ok v (getA s t) f)); [reflexivity|]. rewrite Hm. reflexivity.
 Qed.
 
-(* over every history: after an approval by [f] for ([t], [h]) took effect, no later approval or
-   decline by [f] with the same target and the same hash string changes anything, whatever happened between *)
-Theorem vote_counts_once : forall s f t h ops,
+(* over every history: after an approval by [f] for ([t], [h]) took effect, no later approval or decline by
+   [f] for [t] with a hash of the same vote key changes anything, whatever happened in between.  On the
+   repaired variant (v_lower) the vote key is the lower-cased hash: every spelling of the hash. *)
+Theorem vote_counts_once : forall s f t h h' ops,
   let s1 := exec s (OApprove f t h) in
   s1 <> s ->
+  mark_key v h' = mark_key v h ->
   let s2 := run s1 ops in
-  exec s2 (OApprove f t h) = s2 /\ exec s2 (ODecline f t h) = s2.
+  exec s2 (OApprove f t h') = s2 /\ exec s2 (ODecline f t h') = s2.
 Proof.
-  intros s f t h ops s1 Hne s2.
-  assert (Hm : mark_get f t h (marks s1) = Some 1).
+  intros s f t h h' ops s1 Hne Hk s2.
+  assert (Hm : mark_get f t (mark_key v h) (marks s1) = Some 1).
   { unfold s1, Custody.exec in *. destruct (step s (OApprove f t h)) as [s'| |] eqn:E; try congruence.
     eapply approve_marks; eauto. }
-  assert (Hm2 : mark_get f t h (marks s2) = Some 1) by (apply marks_mono_run; exact Hm).
+  assert (Hm2 : mark_get f t (mark_key v h') (marks s2) = Some 1) by (rewrite Hk; apply marks_mono_run; exact Hm).
   split; [eapply approve_marked_noop|eapply decline_marked_noop]; eauto.
 Qed.
 
@@ -261,317 +351,126 @@ Proof.
   intros s o st Ho Hs He. unfold Custody.step, Custody.ante. rewrite Hs, He.
   destruct o; try contradiction; reflexivity.
 Qed.
+End Votes.
 
-(* ================================================================ 5. release: what the code itself requires *)
-(* a direct pay-out by custody send happens only without custodians and without password *)
-Lemma send_direct_only_unguarded : forall s sg to amt pw rew h s' st,
-  step s (OSend sg to amt pw rew h) = Ok s' -> a_set (getA s sg) = Some st ->
-  a_pool (getA s' sg) = a_pool (getA s sg) -> a_pool (getA s sg) = None ->
-  s_pwd st = false /\ (s_en st = true -> a_cust (getA s sg) = Some []).
+(* ================================================================ 5. helper lemmas for the soundness of the spec checker *)
+(* ---- reflexivity of the comparisons *)
+Lemma list_eqb_refl : forall A (e : A -> A -> bool), (forall x, e x x = true) -> forall l, list_eqb e l l = true.
+Proof. intros A e He; induction l; simpl; auto. rewrite He, IHl. reflexivity. Qed.
+Lemma sub_map_refl : forall K V (ke : K -> K -> bool) (ve : V -> V -> bool),
+  (forall x, ke x x = true) -> (forall x, ve x x = true) -> forall l, sub_map ke ve l l = true.
 Proof.
-  intros s sg to amt pw rew h s' st E Hs Hp Hn. unfold Custody.step in E.
-  destruct (ante s (OSend sg to amt pw rew h)); simpl in E; try discriminate.
-  destruct (amt <=? 0); [discriminate|]. rewrite Hs in E. unfold bind in E.
-  destruct (s_en st) eqn:He.
-  - destruct (a_cust (getA s sg)) as [c|] eqn:Hc; [|discriminate].
-    destruct ((0 <? map_len c) || s_pwd st) eqn:Hb.
-    + inversion E; subst. unfold getA at 1 in Hp. simpl in Hp. rewrite Z.eqb_refl in Hp. simpl in Hp. congruence.
-    + apply orb_false_elim in Hb. destruct Hb as [Hb1 Hb2]. apply map_len_zero in Hb1; subst. auto.
-  - destruct (s_pwd st) eqn:Hw.
-    + inversion E; subst. unfold getA at 1 in Hp. simpl in Hp. rewrite Z.eqb_refl in Hp. simpl in Hp. congruence.
-    + split; auto; discriminate.
+  intros K V ke ve Hk Hv l. unfold sub_map. apply forallb_forall. intros e He.
+  apply existsb_exists. exists e. split; auto. rewrite Hk, Hv. reflexivity.
+Qed.
+Lemma map_eqb_refl : forall K V (ke : K -> K -> bool) (ve : V -> V -> bool),
+  (forall x, ke x x = true) -> (forall x, ve x x = true) -> forall l, map_eqb ke ve l l = true.
+Proof. intros. unfold map_eqb. rewrite Nat.eqb_refl, sub_map_refl; auto. Qed.
+Lemma opt_eqb_refl : forall A (e : A -> A -> bool), (forall x, e x x = true) -> forall o, opt_eqb e o o = true.
+Proof. intros A e He [x|]; simpl; auto. Qed.
+Lemma settings_eqb_refl : forall a, settings_eqb a a = true.
+Proof. intros. unfold settings_eqb. rewrite !Bool.eqb_reflx, !Z.eqb_refl, String.eqb_refl. reflexivity. Qed.
+Lemma coin_eqb_refl : forall a, coin_eqb a a = true.
+Proof. intros. unfold coin_eqb. rewrite !Z.eqb_refl. reflexivity. Qed.
+Lemma txr_eqb_refl : forall a, txr_eqb a a = true.
+Proof.
+  intros. unfold txr_eqb. rewrite !Z.eqb_refl, String.eqb_refl, Bool.eqb_reflx, !list_eqb_refl; auto using coin_eqb_refl.
+Qed.
+Lemma lim_eqb_refl : forall a, lim_eqb a a = true.
+Proof. intros. unfold lim_eqb. rewrite Z.eqb_refl, String.eqb_refl. reflexivity. Qed.
+Lemma stat_eqb_refl : forall a, stat_eqb a a = true.
+Proof. intros. unfold stat_eqb. rewrite !Z.eqb_refl. reflexivity. Qed.
+Lemma bal_eqb_refl : forall a, bal_eqb a a = true.
+Proof. intros. unfold bal_eqb. apply forallb_forall. intros; apply Z.eqb_refl. Qed.
+Lemma acct_eqb_refl : forall a, acct_eqb a a = true.
+Proof.
+  intros. unfold acct_eqb.
+  rewrite (opt_eqb_refl _ _ settings_eqb_refl).
+  rewrite !(opt_eqb_refl _ _ (map_eqb_refl _ _ Z.eqb Bool.eqb Z.eqb_refl Bool.eqb_reflx)).
+  rewrite (opt_eqb_refl _ _ (map_eqb_refl _ _ Z.eqb lim_eqb Z.eqb_refl lim_eqb_refl)).
+  rewrite (opt_eqb_refl _ _ (map_eqb_refl _ _ String.eqb txr_eqb String.eqb_refl txr_eqb_refl)).
+  rewrite bal_eqb_refl.
+  rewrite (opt_eqb_refl _ _ (map_eqb_refl _ _ Z.eqb stat_eqb Z.eqb_refl stat_eqb_refl)).
+  reflexivity.
+Qed.
+Lemma mark4_eqb_refl : forall a, mark4_eqb a a = true.
+Proof. intros [[[f t] h] x]. simpl. rewrite !Z.eqb_refl, String.eqb_refl. reflexivity. Qed.
+Lemma marks_eqb_refl : forall l, marks_eqb l l = true.
+Proof.
+  intros. unfold marks_eqb. rewrite Nat.eqb_refl. simpl.
+  assert (X : forallb (fun e => existsb (mark4_eqb e) l) l = true).
+  { apply forallb_forall. intros e He. apply existsb_exists. exists e; split; auto using mark4_eqb_refl. }
+  rewrite X. reflexivity.
+Qed.
+Lemma state_eqb_refl : forall n s, state_eqb n s s = true.
+Proof.
+  intros. unfold state_eqb. rewrite marks_eqb_refl.
+  assert (X : forallb (fun i => acct_eqb (getA s (Z.of_nat i)) (getA s (Z.of_nat i))) (seq 0 n) = true).
+  { apply forallb_forall. intros; apply acct_eqb_refl. }
+  rewrite X. reflexivity.
 Qed.
 
-End Facts.
+(* ---- the clauses a repaired tree may still produce: the design-level ones *)
+Definition starts_key (c : string) : bool :=
+  match c with String "k" (String "e" (String "y" (String ":" _))) => true | _ => false end.
+Definition residual (c : string) : bool :=
+  starts_key c ||
+  str_in c ["blocked:multisend"; "whitelist:multisend"; "limits:multisend"; "whitelist:custody_send"; "limits:custody_send"]%string.
 
-(* ================================================================ 6. the spec checker accepts the model's plain bank sends *)
-Section ChkSound.
-Variable H : string -> string.
-Variable minrew : Z.
+Lemma residual_key : forall a b, residual (cl3 "key" a b) = true.
+Proof. intros. unfold residual, cl3. simpl. reflexivity. Qed.
 
+(* ---- custodians *)
+Lemma alist_get_in : forall V k (x : V) l, alist_get k l = Some x -> In (k, x) l.
+Proof.
+  induction l as [|[k' y] l IH]; simpl; intros E; [discriminate|].
+  destruct (k =? k') eqn:Ek; [inversion E; subst; left; f_equal; lia|right; auto].
+Qed.
+Lemma bool_at_is_custodian : forall a c f, a_cust a = Some c -> bool_at f c = true -> is_custodian a f = true.
+Proof.
+  intros a c f Hc Hb. unfold is_custodian, custodians. rewrite Hc. unfold bool_at in Hb.
+  destruct (alist_get f c) as [b|] eqn:E; [|discriminate]. subst b. apply alist_get_in in E.
+  apply existsb_exists. exists f. split; [|apply Z.eqb_refl].
+  apply in_map_iff. exists (f, true). split; auto. apply filter_In. split; auto.
+Qed.
+Lemma filter_len_le : forall A (f : A -> bool) l, (List.length (filter f l) <= List.length l)%nat.
+Proof. induction l; simpl; auto. destruct (f a); simpl; lia. Qed.
+Lemma n_cust_le_map_len : forall a c, a_cust a = Some c -> n_cust a <= map_len c.
+Proof.
+  intros a c Hc. unfold n_cust, custodians, map_len. rewrite Hc. rewrite map_length.
+  assert (List.length (filter (fun e : Z * bool => snd e) c) <= List.length c)%nat by apply filter_len_le. lia.
+Qed.
 Lemma n_cust_nil : forall a, a_cust a = Some [] -> n_cust a = 0.
 Proof. intros a E. unfold n_cust, custodians. rewrite E. reflexivity. Qed.
+Lemma n_cust_nonneg : forall a, 0 <= n_cust a.
+Proof. intros; unfold n_cust; lia. Qed.
 
-(* whenever the model accepts a plain bank send, none of the clauses blocked / whitelist / limits
-   of the checker fires for it: the link between "real trace passes the checker" and theorems 1, 2 *)
-Lemma chk_bank_sound : forall s sg to amt s',
-  step H minrew s (OBank sg to amt) = Ok s' -> path_clauses (getA s sg) to amt "bank_send" = [].
+(* ---- the log *)
+Lemma count_appr_nonneg : forall t h l, 0 <= count_appr t h l.
+Proof. intros; unfold count_appr; lia. Qed.
+Lemma count_appr_cons_ge : forall t h e l, count_appr t h l <= count_appr t h (e :: l).
+Proof. intros t h [[f t'] h'] l. unfold count_appr. simpl. destruct ((t =? t') && String.eqb h h'); simpl List.length; lia. Qed.
+Lemma count_appr_cons_hit : forall f t h l, count_appr t h ((f, t, h) :: l) = count_appr t h l + 1.
+Proof. intros. unfold count_appr. simpl. rewrite Z.eqb_refl, String.eqb_refl. simpl List.length. lia. Qed.
+Lemma in3_cons : forall f t h e l, in3 f t h l = true -> in3 f t h (e :: l) = true.
+Proof. intros. unfold in3 in *. simpl. rewrite H. apply orb_true_r. Qed.
+Lemma in3_cons_inv : forall f t h f' t' h' l, in3 f t h ((f', t', h') :: l) = true -> (f = f' /\ t = t' /\ h = h') \/ in3 f t h l = true.
 Proof.
-  intros s sg to amt s' E. pose proof (bank_send_accepted H minrew s sg to amt s' E) as A.
-  unfold path_clauses, wl_lim_clauses, guarded, flag.
-  destruct (a_set (getA s sg)) as [st|] eqn:Hs; [|reflexivity].
-  destruct A as (A1 & A2 & A3). rewrite A3.
-  assert (G : s_en st && (0 <? n_cust (getA s sg)) = false).
-  { destruct (s_en st); [|reflexivity]. rewrite (n_cust_nil _ (A1 eq_refl)). reflexivity. }
-  rewrite G. simpl.
-  destruct (s_wl st); [|reflexivity].
-  destruct (a_wl (getA s sg)) as [w|] eqn:Hl; [|reflexivity].
-  rewrite (A2 eq_refl w eq_refl). reflexivity.
+  intros. unfold in3 in *. simpl in H. apply orb_prop in H. destruct H as [E|E]; auto.
+  left. apply andb_prop in E. destruct E as [E E3]. apply andb_prop in E. destruct E as [E1 E2].
+  apply String.eqb_eq in E3. repeat split; auto; lia.
 Qed.
-End ChkSound.
+Lemma in2_cons : forall t h e l, in2 t h l = true -> in2 t h (e :: l) = true.
+Proof. intros. unfold in2 in *. simpl. rewrite H. apply orb_true_r. Qed.
+Lemma in2_cons_same : forall t h l, in2 t h ((t, h) :: l) = true.
+Proof. intros. unfold in2. simpl. rewrite Z.eqb_refl, String.eqb_refl. reflexivity. Qed.
 
-(* ================================================================ 7. the full-strength statements and their refutations.
-   Witnesses are concrete histories from the initial state; each is replayed on the real code by
-   the directed histories of harness/cmd/c17 (the known findings). *)
-Definition reachable (H : string -> string) (minrew : Z) (s : state) : Prop :=
-  exists bals ops, s = run H minrew (init_state bals) ops.
-
-(* the custody configuration of a guarded account changes only for someone who shows the
-   preimage of its current key *)
-Definition settings_change_requires_key_stmt : Prop :=
-  forall H minrew s o x st, reachable H minrew s ->
-    a_set (getA s x) = Some st -> s_en st = true ->
-    config_eqb (getA s x) (getA (exec H minrew s o) x) = false ->
-    exists k, op_kp o = Some k /\ H (k_old k) = s_key st.
-
-(* an approval or a decline moves coins only if the voter is a custodian of the target *)
-Definition only_custodians_count_stmt : Prop :=
-  forall H minrew s f t h y, reachable H minrew s ->
-    (a_bal (getA (exec H minrew s (OApprove f t h)) y) <> a_bal (getA s y)
-     \/ a_bal (getA (exec H minrew s (ODecline f t h)) y) <> a_bal (getA s y)) ->
-    is_custodian (getA s t) f = true.
-
-(* a password confirmation pays out a transfer of an account that uses a password only if the
-   password given matches the one the transfer was requested with *)
-Definition password_confirmed_when_required_stmt : Prop :=
-  forall H minrew s f t h p ph st pl tx, reachable H minrew s ->
-    a_set (getA s t) = Some st -> s_pwd st = true ->
-    a_pool (getA s t) = Some pl -> pool_get (to_lower h) pl = Some tx ->
-    a_bal (getA (exec H minrew s (OConfirm f t h p ph)) (t_to tx)) <> a_bal (getA s (t_to tx)) ->
-    p = t_pw tx \/ ph = t_pw tx.
-
-(* over every history the checker's threshold clauses never fire: every pay-out of a pooled
-   transfer of a guarded account was approved by the configured share of its custodians, each
-   custodian counted once *)
-Definition threshold_clause (c : string) : bool :=
-  str_in c ["threshold:approve:nongenuine"; "threshold:approve:undercount"; "threshold:confirm:nongenuine";
-            "threshold:confirm:undercount"; "threshold:custody_send:direct"]%string.
-Definition release_only_after_threshold_stmt : Prop :=
-  forall H minrew bals ops c, In c (model_clauses H minrew bals ops) -> threshold_clause c = false.
-
-(* a custodian counts once per transfer (the transfer is named by its hash, whatever the spelling) *)
-Definition vote_counts_once_per_transfer_stmt : Prop :=
-  forall H minrew bals ops c, In c (model_clauses H minrew bals ops) ->
-    str_in c ["vote_once:approve"; "vote_once:decline"]%string = false.
-
-(* the whole property: the checker accepts every history of the model *)
-Definition C17_full_stmt : Prop := forall H minrew bals ops, model_clauses H minrew bals ops = [].
-
-Definition w_bals : list Z := [1000000; 1000000; 5000; 5000; 300; 0].
-Definition kp0 (old new : string) : kp := mkKp old new (-1) (-1).
-(* account 0 guarded: custodians 2 and 3, current key digest "K3" *)
-Definition w_setup (mode : Z) (pwd : bool) : list op :=
-  [ OCreate 0 (mkSet false mode pwd false false "" (-1)) (kp0 "Kx" "K1");
-    OAdd LCust 0 [2; 3] (kp0 "K1" "K2");
-    OCreate 0 (mkSet true mode pwd false false "" (-1)) (kp0 "K2" "K3") ]%string.
-Definition w_send : op := OSend 0 5 1000 "P1" [400] "ab12cd34".
-Definition w_run (ops : list op) : state := run Hid 200 (init_state w_bals) ops.
-
-Lemma w_reachable : forall ops, reachable Hid 200 (w_run ops).
-Proof. intros ops; exists w_bals, ops; reflexivity. Qed.
-
-(* (a) MsgDisableCustodyRecord has no arm in the decorator: the owner's key is not needed *)
-Lemma key_refuted_no_arm : exists ops o x st,
-  let s := w_run ops in
-  a_set (getA s x) = Some st /\ s_en st = true /\ config_eqb (getA s x) (getA (exec Hid 200 s o) x) = false
-  /\ forall k, op_kp o = Some k -> Hid (k_old k) <> s_key st.
-Proof.
-  exists (w_setup 100 false), (ODisable 0 (kp0 "Kx" "K9")), 0, (mkSet true 100 false false false "K3" (-1)).
-  cbv zeta. split; [vm_compute; reflexivity|]. split; [reflexivity|]. split; [vm_compute; reflexivity|].
-  intros k Hk; inversion Hk; subst; vm_compute; discriminate.
-Qed.
-
-(* (b) a signer without any custody record skips all checks and names the victim as TargetAddress *)
-Lemma key_refuted_target_norecord : exists ops o x st,
-  let s := w_run ops in
-  signer o <> x /\ a_set (getA s (signer o)) = None /\
-  a_set (getA s x) = Some st /\ s_en st = true /\ config_eqb (getA s x) (getA (exec Hid 200 s o) x) = false
-  /\ forall k, op_kp o = Some k -> Hid (k_old k) <> s_key st.
-Proof.
-  exists (w_setup 100 false), (ODropL LCust 4 (mkKp "Kx" "K9" (-1) 0)), 0, (mkSet true 100 false false false "K3" (-1)).
-  cbv zeta. split; [vm_compute; discriminate|]. split; [vm_compute; reflexivity|].
-  split; [vm_compute; reflexivity|]. split; [reflexivity|]. split; [vm_compute; reflexivity|].
-  intros k Hk; inversion Hk; subst; vm_compute; discriminate.
-Qed.
-
-(* (c) a guarded signer proves ITS OWN key and names its own NextController: the record changed is the victim's *)
-Lemma key_refuted_target_next : exists ops o x st,
-  let s := w_run ops in
-  signer o <> x /\ a_set (getA s x) = Some st /\ s_en st = true
-  /\ config_eqb (getA s x) (getA (exec Hid 200 s o) x) = false
-  /\ forall k, op_kp o = Some k -> Hid (k_old k) <> s_key st.
-Proof.
-  exists (app (w_setup 100 false) [OCreate 1 (mkSet true 50 false false false "" (-1)) (mkKp "Kx" "K7" 0 (-1))])%string,
-         (OAdd LCust 1 [4] (mkKp "K7" "K8" (-1) 0)), 0, (mkSet true 100 false false false "K3" (-1)).
-  cbv zeta. split; [vm_compute; discriminate|]. split; [vm_compute; reflexivity|]. split; [reflexivity|].
-  split; [vm_compute; reflexivity|].
-  intros k Hk; inversion Hk; subst; vm_compute; discriminate.
-Qed.
-
-Theorem settings_change_requires_key_refuted : ~ settings_change_requires_key_stmt.
-Proof.
-  intros St. destruct key_refuted_no_arm as (ops & o & x & st & Hs & He & Hc & Hk).
-  destruct (St Hid 200 (w_run ops) o x st (w_reachable ops) Hs He Hc) as (k & Ek & Eh).
-  exact (Hk k Ek Eh).
-Qed.
-
-(* a stranger approves: he is paid the reward share from the guarded account and his vote counts *)
-Lemma stranger_approval_counts : exists ops f t h,
-  let s := w_run ops in let s' := exec Hid 200 s (OApprove f t h) in
-  is_custodian (getA s t) f = false /\ a_bal (getA s' f) = a_bal (getA s f) + 200
-  /\ a_bal (getA s' t) = a_bal (getA s t) - 200
-  /\ option_map (fun p => map (fun e => t_votes (snd e)) p) (a_pool (getA s' t)) = Some [1].
-Proof.
-  exists (app (w_setup 100 false) [w_send]), 4, 0, "ab12cd34"%string. vm_compute. repeat split; reflexivity.
-Qed.
-
-Lemma stranger_decline_paid : exists ops f t h,
-  let s := w_run ops in let s' := exec Hid 200 s (ODecline f t h) in
-  is_custodian (getA s t) f = false /\ a_bal (getA s' f) = a_bal (getA s f) + 200.
-Proof.
-  exists (app (w_setup 100 false) [w_send]), 4, 0, "ab12cd34"%string. vm_compute. repeat split; reflexivity.
-Qed.
-
-Theorem only_custodians_count_refuted : ~ only_custodians_count_stmt.
-Proof.
-  intros St. destruct stranger_approval_counts as (ops & f & t & h & Hc & Hb & _).
-  cbv zeta in *. rewrite (St Hid 200 (w_run ops) f t h f (w_reachable ops)) in Hc; [discriminate|].
-  left. rewrite Hb. lia.
-Qed.
-
-(* both custodians approved, then a stranger "confirms" with a wrong password: paid out *)
-Lemma wrong_password_pays_out : exists ops f t h p ph st pl tx,
-  let s := w_run ops in
-  a_set (getA s t) = Some st /\ s_pwd st = true /\ a_pool (getA s t) = Some pl /\ pool_get (to_lower h) pl = Some tx
-  /\ a_bal (getA (exec Hid 200 s (OConfirm f t h p ph)) (t_to tx)) = a_bal (getA s (t_to tx)) + t_amt tx
-  /\ t_amt tx = 1000 /\ p <> t_pw tx /\ ph <> t_pw tx.
-Proof.
-  exists (app (w_setup 100 true) [w_send; OApprove 2 0 "ab12cd34"; OApprove 3 0 "ab12cd34"])%string, 4, 0, "AB12cd34"%string,
-         "px"%string, "Px"%string, (mkSet true 100 true false false "K3" (-1)),
-         [("ab12cd34"%string, mkTx 5 1000 "P1" [400] 2 false)], (mkTx 5 1000 "P1" [400] 2 false).
-  vm_compute. repeat split; try reflexivity; discriminate.
-Qed.
-
-Theorem password_confirmed_when_required_refuted : ~ password_confirmed_when_required_stmt.
-Proof.
-  intros St. destruct wrong_password_pays_out as (ops & f & t & h & p & ph & st & pl & tx & Hs & Hp & Hl & Hg & Hb & Ha & N1 & N2).
-  cbv zeta in *.
-  destruct (St Hid 200 (w_run ops) f t h p ph st pl tx (w_reachable ops) Hs Hp Hl Hg); [|congruence|congruence].
-  rewrite Hb, Ha. lia.
-Qed.
-
-(* threshold 100 % of two custodians: ONE custodian approves twice, spelling the hash differently;
-   or two strangers approve: the transfer is paid out *)
-Definition w_twice : list op := (app (w_setup 100 false) [w_send; OApprove 2 0 "ab12cd34"; OApprove 2 0 "AB12cd34"])%string.
-Definition w_strangers : list op := (app (w_setup 100 false) [w_send; OApprove 4 0 "ab12cd34"; OApprove 1 0 "ab12cd34"])%string.
-
-Lemma str_in_In : forall x l, str_in x l = true -> In x l.
-Proof.
-  induction l as [|y l IH]; simpl; [discriminate|]. intros E. apply orb_prop in E. destruct E as [E|E].
-  - left. apply String.eqb_eq in E. auto.
-  - right. auto.
-Qed.
-
-Lemma one_custodian_twice_pays_out :
-  a_bal (getA (w_run w_twice) 5) = 1000 /\ n_cust (getA (w_run w_twice) 0) = 2
-  /\ In "threshold:approve:nongenuine"%string (model_clauses Hid 200 w_bals w_twice)
-  /\ In "vote_once:approve"%string (model_clauses Hid 200 w_bals w_twice).
-Proof.
-  split; [vm_compute; reflexivity|]. split; [vm_compute; reflexivity|].
-  split; apply str_in_In; vm_compute; reflexivity.
-Qed.
-
-Lemma strangers_pay_out :
-  a_bal (getA (w_run w_strangers) 5) = 1000
-  /\ In "threshold:approve:nongenuine"%string (model_clauses Hid 200 w_bals w_strangers)
-  /\ In "only_custodians:approve"%string (model_clauses Hid 200 w_bals w_strangers).
-Proof.
-  split; [vm_compute; reflexivity|]. split; apply str_in_In; vm_compute; reflexivity.
-Qed.
-
-Theorem release_only_after_threshold_refuted : ~ release_only_after_threshold_stmt.
-Proof.
-  intros St. destruct strangers_pay_out as (_ & Hin & _).
-  specialize (St Hid 200 w_bals w_strangers _ Hin).
-  assert (X : threshold_clause "threshold:approve:nongenuine" = true) by reflexivity. rewrite St in X. discriminate.
-Qed.
-
-Theorem vote_counts_once_per_transfer_refuted : ~ vote_counts_once_per_transfer_stmt.
-Proof.
-  intros St. destruct one_custodian_twice_pays_out as (_ & _ & _ & Hin).
-  specialize (St Hid 200 w_bals w_twice _ Hin).
-  assert (X : str_in "vote_once:approve" ["vote_once:approve"; "vote_once:decline"]%string = true) by reflexivity.
-  rewrite St in X. discriminate.
-Qed.
-
-Theorem C17_full_refuted : ~ C17_full_stmt.
-Proof.
-  intros St. specialize (St Hid 200 w_bals w_strangers).
-  assert (X : (match model_clauses Hid 200 w_bals w_strangers with [] => true | _ => false end) = false) by (vm_compute; reflexivity).
-  rewrite St in X. discriminate.
-Qed.
-
-(* the second request replaces the pending one (the pool record is overwritten): the first transfer can
-   no longer be approved; this loses a request but pays nothing out early *)
-Lemma second_send_overwrites_pool :
-  let s := w_run (app (w_setup 100 false) [w_send; OApprove 2 0 "ab12cd34"; OSend 0 4 2000 "P2" [400] "cd34ab12"])%string in
-  option_map (map fst) (a_pool (getA s 0)) = Some ["cd34ab12"%string]
-  /\ is_panic (step Hid 200 s (OApprove 3 0 "ab12cd34")) = true.
-Proof. vm_compute. split; reflexivity. Qed.
-
-(* the honest run is accepted by the checker (non-vacuity of the clauses) *)
-Lemma honest_run_clean :
-  model_clauses Hid 200 w_bals (app (w_setup 100 true) [w_send; OConfirm 0 0 "ab12cd34" "p1" "P1"; OApprove 2 0 "ab12cd34";
-                                                      OApprove 2 0 "ab12cd34"; OApprove 3 0 "ab12cd34"; OBank 0 5 10])%string = []
-  /\ a_bal (getA (w_run (app (w_setup 100 true) [w_send; OConfirm 0 0 "ab12cd34" "p1" "P1"; OApprove 2 0 "ab12cd34";
-                                               OApprove 2 0 "ab12cd34"; OApprove 3 0 "ab12cd34"; OBank 0 5 10])%string) 5) = 1000.
-Proof. vm_compute. split; reflexivity. Qed.
-
-(* ================================================================ 8. votes are bounded by the recorded approval marks (invariant over histories) *)
-Definition count_marks (t : Z) (h : string) (l : list (Z * Z * string * Z)) : Z :=
-  Z.of_nat (List.length (filter (fun e => match e with (_, t', hr, v) => (t =? t') && String.eqb (to_lower hr) h && (v =? 1) end) l)).
+(* ---- pools *)
 Definition pool_of (s : state) (t : Z) : option pmap := a_pool (getA s t).
-Definition votes_inv (s : state) : Prop :=
-  forall t p h tx, pool_of s t = Some p -> pool_get h p = Some tx -> t_votes tx <= count_marks t h (marks s).
 
-Lemma count_marks_nonneg : forall t h l, 0 <= count_marks t h l.
-Proof. intros; unfold count_marks; lia. Qed.
-Lemma count_marks_cons_ge : forall t h e l, count_marks t h l <= count_marks t h (e :: l).
-Proof. intros t h [[[f t'] hr] v] l. unfold count_marks. simpl. destruct ((t =? t') && String.eqb (to_lower hr) h && (v =? 1)); simpl List.length; lia. Qed.
-Lemma count_marks_cons_hit : forall f t hr l, count_marks t (to_lower hr) ((f, t, hr, 1) :: l) = count_marks t (to_lower hr) l + 1.
-Proof. intros. unfold count_marks. simpl. rewrite Z.eqb_refl, String.eqb_refl. simpl List.length. lia. Qed.
-
-Lemma getA_setA : forall s i a j, getA (setA s i a) j = if j =? i then a else getA s j.
-Proof. intros. unfold getA, setA. simpl. destruct (j =? i); reflexivity. Qed.
-Lemma pool_of_setA_keep : forall s i a t, a_pool a = pool_of s i -> pool_of (setA s i a) t = pool_of s t.
+Lemma pool_get_set : forall h' h x p, pool_get h' (pool_set h x p) = if String.eqb h' h then Some x else pool_get h' p.
 Proof.
-  intros s i a t E. unfold pool_of in *. rewrite getA_setA. destruct (t =? i) eqn:Et; auto.
-  assert (t = i) by lia. subst. auto.
-Qed.
-Lemma pool_of_setA_other : forall s i a t, t <> i -> pool_of (setA s i a) t = pool_of s t.
-Proof. intros s i a t Hn. unfold pool_of. rewrite getA_setA. destruct (t =? i) eqn:Et; auto. lia. Qed.
-Lemma pool_of_setA_same : forall s i a, pool_of (setA s i a) i = a_pool a.
-Proof. intros. unfold pool_of. rewrite getA_setA, Z.eqb_refl. reflexivity. Qed.
-Lemma pool_of_add_mark : forall s f t h v u, pool_of (add_mark s f t h v) u = pool_of s u.
-Proof. reflexivity. Qed.
-Lemma send_pool : forall s a b x s', send s a b x = Ok s' -> forall t, pool_of s' t = pool_of s t.
-Proof.
-  unfold send; intros s a b x s' E t. destruct (a_bal (getA s a) <? x); inversion E; subst.
-  rewrite pool_of_setA_keep; [rewrite pool_of_setA_keep; reflexivity|reflexivity].
-Qed.
-Lemma set_key_pool : forall s x k s', set_key s x k = Ok s' -> forall t, pool_of s' t = pool_of s t.
-Proof.
-  unfold set_key; intros s x k s' E t. destruct (a_set (getA s x)); inversion E; subst.
-  rewrite pool_of_setA_keep; reflexivity.
-Qed.
-Lemma pool_of_store_same : forall s t p, pool_of (store_pool s t p) t = Some p.
-Proof. intros. unfold store_pool. rewrite pool_of_setA_same. reflexivity. Qed.
-Lemma pool_of_store_other : forall s t p u, u <> t -> pool_of (store_pool s t p) u = pool_of s u.
-Proof. intros. unfold store_pool. rewrite pool_of_setA_other; auto. Qed.
-
-Lemma pool_get_set : forall h' h v p, pool_get h' (pool_set h v p) = if String.eqb h' h then Some v else pool_get h' p.
-Proof.
-  induction p as [|[k x] p IH]; simpl.
+  induction p as [|[k y] p IH]; simpl.
   - destruct (String.eqb h' h); reflexivity.
   - destruct (String.eqb h k) eqn:E; simpl.
     + apply String.eqb_eq in E; subst. destruct (String.eqb h' k); reflexivity.
@@ -594,250 +493,695 @@ Proof.
   induction p as [|[k x] p IH]; simpl; auto. destruct (String.eqb h k) eqn:E; simpl; auto. rewrite E. auto.
 Qed.
 
-Lemma votes_inv_weaken : forall s s', (forall t, pool_of s' t = pool_of s t) ->
-  (forall t h, count_marks t h (marks s) <= count_marks t h (marks s')) -> votes_inv s -> votes_inv s'.
+Lemma released_inv : forall s s' t h tx, released s s' t h = Some tx ->
+  exists p, pool_of s t = Some p /\ pool_get h p = Some tx
+            /\ (match pool_of s' t with Some p' => pool_get h p' | None => None end) = None.
 Proof.
-  intros s s' Hp Hm Inv t p h tx E1 E2. rewrite Hp in E1. specialize (Inv t p h tx E1 E2). specialize (Hm t h). lia.
+  unfold released, pool_of. intros s s' t h tx E.
+  destruct (a_pool (getA s t)) as [p|]; [|discriminate].
+  destruct (pool_get h p) as [x|] eqn:Eg; [|discriminate].
+  exists p. destruct (a_pool (getA s' t)) as [p'|].
+  - destruct (pool_get h p') eqn:Eg'; [discriminate|]. inversion E; subst. auto.
+  - inversion E; subst. auto.
+Qed.
+Lemma released_present : forall s s' t h p' x,
+  pool_of s' t = Some p' -> pool_get h p' = Some x -> released s s' t h = None.
+Proof.
+  unfold released, pool_of. intros s s' t h p' x E1 E2.
+  destruct (a_pool (getA s t)) as [p|]; auto. destruct (pool_get h p); auto. rewrite E1, E2. reflexivity.
+Qed.
+Lemma released_same_pool : forall s s' t h, pool_of s' t = pool_of s t -> released s s' t h = None.
+Proof.
+  unfold released, pool_of. intros s s' t h E. rewrite E.
+  destruct (a_pool (getA s t)) as [p|]; auto. destruct (pool_get h p) eqn:Eg; auto.
 Qed.
 
-Section Inv.
+(* ---- what the handlers leave alone: pool, balance and limit statuses of every account, and the marks *)
+Definition pbs (a : acct) := (a_pool a, a_bal a, a_stat a).
+Definition frame_pbs (s s' : state) : Prop := forall t, pbs (getA s' t) = pbs (getA s t).
+Definition frame_ps (s s' : state) : Prop := forall t, a_pool (getA s' t) = a_pool (getA s t) /\ a_stat (getA s' t) = a_stat (getA s t).
+
+Lemma frame_pbs_setA : forall s i a, pbs a = pbs (getA s i) -> frame_pbs s (setA s i a).
+Proof.
+  intros s i a E t. rewrite getA_setA. destruct (t =? i) eqn:Et; auto. assert (t = i) by lia. subst. auto.
+Qed.
+Lemma frame_pbs_trans : forall a b c, frame_pbs a b -> frame_pbs b c -> frame_pbs a c.
+Proof. intros a b c X Y t. rewrite Y, X. reflexivity. Qed.
+Lemma frame_pbs_refl : forall a, frame_pbs a a.
+Proof. intros a t; reflexivity. Qed.
+Lemma set_key_frame : forall s x k s', set_key s x k = Ok s' -> frame_pbs s s'.
+Proof.
+  unfold set_key; intros s x k s' E. destruct (a_set (getA s x)); inversion E; subst.
+  apply frame_pbs_setA. reflexivity.
+Qed.
+Lemma frame_ps_of_pbs : forall s s', frame_pbs s s' -> frame_ps s s'.
+Proof. intros s s' F t. specialize (F t). unfold pbs in F. inversion F. auto. Qed.
+Lemma frame_ps_trans : forall a b c, frame_ps a b -> frame_ps b c -> frame_ps a c.
+Proof. intros a b c X Y t. destruct (X t), (Y t). split; congruence. Qed.
+Lemma frame_ps_setA : forall s i a, a_pool a = a_pool (getA s i) -> a_stat a = a_stat (getA s i) -> frame_ps s (setA s i a).
+Proof.
+  intros s i a E1 E2 t. rewrite getA_setA. destruct (t =? i) eqn:Et; auto. assert (t = i) by lia. subst. auto.
+Qed.
+Lemma send_frame : forall s a b x s', send s a b x = Ok s' -> frame_ps s s'.
+Proof.
+  unfold send; intros s a b x s' E. destruct (negb (coins_valid x)); [discriminate|].
+  destruct (can_pay (a_bal (getA s a)) x); inversion E; subst.
+  eapply frame_ps_trans; apply frame_ps_setA; reflexivity.
+Qed.
+Lemma add_mark_frame : forall s f t h x u, getA (add_mark s f t h x) u = getA s u.
+Proof. reflexivity. Qed.
+
+Lemma pool_of_setA_same : forall s i a, pool_of (setA s i a) i = a_pool a.
+Proof. intros. unfold pool_of. rewrite getA_setA_same. reflexivity. Qed.
+Lemma pool_of_setA_other : forall s i a t, t <> i -> pool_of (setA s i a) t = pool_of s t.
+Proof. intros s i a t Hn. unfold pool_of. rewrite getA_setA. destruct (t =? i) eqn:Et; auto. lia. Qed.
+Lemma pool_of_store_same : forall s t p, pool_of (store_pool s t p) t = Some p.
+Proof. intros. unfold store_pool. rewrite pool_of_setA_same. reflexivity. Qed.
+Lemma pool_of_store_other : forall s t p u, u <> t -> pool_of (store_pool s t p) u = pool_of s u.
+Proof. intros. unfold store_pool. rewrite pool_of_setA_other; auto. Qed.
+Lemma stat_store_pool : forall s t p u, a_stat (getA (store_pool s t p) u) = a_stat (getA s u).
+Proof.
+  intros. unfold store_pool. rewrite getA_setA. destruct (u =? t) eqn:E; auto. assert (u = t) by lia; subst. reflexivity.
+Qed.
+Lemma bal_store_pool : forall s t p u, a_bal (getA (store_pool s t p) u) = a_bal (getA s u).
+Proof.
+  intros. unfold store_pool. rewrite getA_setA. destruct (u =? t) eqn:E; auto. assert (u = t) by lia; subst. reflexivity.
+Qed.
+
+(* ---- balances: a transfer never lowers the balance of an account that is not the payer *)
+Lemma alist_get_map_set : forall V k k' (x : V) l, alist_get k (map_set k' x l) = if k =? k' then Some x else alist_get k l.
+Proof.
+  induction l as [|[j y] l IH]; simpl.
+  - destruct (k =? k'); reflexivity.
+  - destruct (k' =? j) eqn:E; simpl.
+    + assert (k' = j) by lia; subst. destruct (k =? j); reflexivity.
+    + rewrite IH. destruct (k =? j) eqn:E2; auto. destruct (k =? k') eqn:E3; auto. lia.
+Qed.
+Lemma bal_get_map_set : forall d d' x b, bal_get d (map_set d' x b) = if d =? d' then x else bal_get d b.
+Proof. intros. unfold bal_get. rewrite alist_get_map_set. destruct (d =? d'); reflexivity. Qed.
+
+Lemma bal_add_ge : forall cs b d, (forall c, In c cs -> 0 <= snd c) -> bal_get d b <= bal_get d (bal_add b cs).
+Proof.
+  unfold bal_add. induction cs as [|c cs IH]; intros b d Hp; simpl; [lia|].
+  eapply Z.le_trans; [|apply IH; intros; apply Hp; right; assumption].
+  rewrite bal_get_map_set. destruct (d =? fst c) eqn:E; [|lia].
+  assert (d = fst c) by lia; subst. specialize (Hp c (or_introl eq_refl)). lia.
+Qed.
+Lemma coins_sorted_pos : forall cs lo c, coins_sorted lo cs = true -> In c cs -> 0 < snd c.
+Proof.
+  induction cs as [|[d a] cs IH]; simpl; intros lo c E Hin; [contradiction|].
+  apply andb_prop in E. destruct E as [E E3]. apply andb_prop in E. destruct E as [E1 E2].
+  destruct Hin as [<-|Hin]; [simpl; lia|eauto].
+Qed.
+Lemma coins_valid_nonneg : forall cs c, coins_valid cs = true -> In c cs -> 0 <= snd c.
+Proof.
+  intros cs c E Hin. destruct cs as [|x cs]; [contradiction|]. unfold coins_valid in E.
+  pose proof (coins_sorted_pos _ _ _ E Hin). lia.
+Qed.
+
+Definition nondec (s s' : state) (x : Z) : Prop := forall d, bal_get d (a_bal (getA s x)) <= bal_get d (a_bal (getA s' x)).
+Lemma nondec_refl : forall s x, nondec s s x.
+Proof. intros s x d; lia. Qed.
+Lemma nondec_send : forall s a f t cs b x, nondec s a x -> send a f t cs = Ok b -> x <> f -> nondec s b x.
+Proof.
+  intros s a f t cs b x N E Hn d. specialize (N d). unfold send in E.
+  destruct (negb (coins_valid cs)) eqn:Ev; [discriminate|]. apply negb_false_iff in Ev.
+  destruct (can_pay (a_bal (getA a f)) cs); inversion E; subst. clear E.
+  rewrite getA_setA. destruct (x =? t) eqn:Et.
+  - assert (x = t) by lia; subst. simpl a_bal. rewrite getA_setA. destruct (t =? f) eqn:Ef; [lia|].
+    eapply Z.le_trans; [exact N|]. apply bal_add_ge. intros c Hc. eapply coins_valid_nonneg; eauto.
+  - rewrite getA_setA. destruct (x =? f) eqn:Ef; [lia|]. exact N.
+Qed.
+Lemma nondec_store_pool : forall s a t p x, nondec s a x -> nondec s (store_pool a t p) x.
+Proof. intros s a t p x N d. rewrite bal_store_pool. apply N. Qed.
+Lemma nondec_add_mark : forall s a f t h y x, nondec s a x -> nondec s (add_mark a f t h y) x.
+Proof. intros s a f t h y x N d. apply N. Qed.
+Lemma nondec_setA : forall s a i acc x, nondec s a x -> a_bal acc = a_bal (getA a i) -> nondec s (setA a i acc) x.
+Proof.
+  intros s a i acc x N E d. rewrite getA_setA. destruct (x =? i) eqn:Ei; [|apply N].
+  assert (x = i) by lia; subst. rewrite E. apply N.
+Qed.
+Lemma nondec_frame : forall s a b x, nondec s a x -> frame_pbs a b -> nondec s b x.
+Proof. intros s a b x N F d. specialize (F x). unfold pbs in F. inversion F as [[F1 F2 F3]]. rewrite F2. apply N. Qed.
+Lemma dec_nondec : forall s s' x, nondec s s' x -> dec (getA s x) (getA s' x) = false.
+Proof.
+  intros s s' x N. unfold dec. apply Bool.not_true_is_false. intros E. apply existsb_exists in E.
+  destruct E as (d & _ & E). specialize (N d). lia.
+Qed.
+
+Ltac nd :=
+  repeat match goal with
+  | |- nondec ?s ?s _ => apply nondec_refl
+  | |- nondec _ (store_pool _ _ _) _ => apply nondec_store_pool
+  | |- nondec _ (add_mark _ _ _ _ _) _ => apply nondec_add_mark
+  | X : send ?a _ _ _ = Ok ?b |- nondec _ ?b _ => apply (fun N Hn => nondec_send _ _ _ _ _ _ _ N X Hn); [|assumption]
+  | X : set_key ?a _ _ = Ok ?b |- nondec _ ?b _ => apply (fun N => nondec_frame _ _ _ _ N (set_key_frame _ _ _ _ X))
+  | |- nondec _ (setA _ _ _) _ => apply nondec_setA; [|try reflexivity; try (match goal with w : lst |- _ => destruct w; reflexivity end)]
+  end.
+
+(* who pays in an operation *)
+Definition payer (o : op) : option Z :=
+  match o with
+  | OApprove _ t _ | ODecline _ t _ | OConfirm _ t _ _ _ => Some t
+  | OSend s _ _ _ _ _ | OBank s _ _ _ | OMulti s _ _ => Some s
+  | _ => None
+  end.
+
+Lemma option_eq_dec : forall (a b : option Z), {a = b} + {a <> b}.
+Proof. decide equality. apply Z.eq_dec. Qed.
+
+Section Outflow.
+Variable v : variant.
 Variable H : string -> string.
 Variable minrew : Z.
 
-Ltac quiet E :=
-  repeat (dmatch_in E; try discriminate); inversion E; subst; (split;
-  [ intro t0;
-    repeat (rewrite pool_of_setA_keep;
-            [|try reflexivity; try (match goal with w : lst |- _ => destruct w; reflexivity end)]);
-    try reflexivity;
-    try (eapply set_key_pool; eassumption); try (eapply send_pool; eassumption)
-  | simpl; try reflexivity; try (eapply set_key_marks; eassumption); try (eapply send_marks; eassumption) ]).
-
-(* operations that touch neither a pool nor the vote store *)
-Lemma quiet_ops : forall s o s', step H minrew s o = Ok s' ->
-  (match o with OSend _ _ _ _ _ _ | OApprove _ _ _ | ODecline _ _ _ | OConfirm _ _ _ _ _ => False | _ => True end) ->
-  (forall t, pool_of s' t = pool_of s t) /\ marks s' = marks s.
+Lemma handle_nondec : forall s o s' x, handle v s o = Ok s' -> payer o <> Some x -> nondec s s' x.
 Proof.
-  intros s o s' E Hq. unfold Custody.step in E. destruct (ante H minrew s o); simpl in E; try discriminate.
-  destruct o; try contradiction; simpl in E; unfold bind in E.
-  - quiet E.
-  - quiet E.
-  - quiet E.
-  - quiet E.
-  - quiet E.
-  - quiet E.
-  - quiet E.
-  - quiet E.
-  - quiet E.
-  - quiet E.
-  - quiet E.
+  intros s o s' x E Hp.
+  destruct o; simpl in E; simpl in Hp; unfold bind, rec_missing in E;
+    try (assert (Hx : x <> t) by congruence); try (assert (Hx : x <> sg) by congruence);
+    repeat (dmatch_in E; try discriminate); inversion E; subst; nd.
 Qed.
 
-Lemma votes_inv_step : forall s o s', votes_inv s -> step H minrew s o = Ok s' -> votes_inv s'.
+Lemma step_nondec : forall s o s' x, step v H minrew s o = Ok s' -> payer o <> Some x -> nondec s s' x.
 Proof.
-  intros s o s' Inv E.
-  destruct o; try (destruct (quiet_ops s _ s' E I) as [Hp Hm]; apply (votes_inv_weaken s s' Hp); [intros; rewrite Hm; lia|exact Inv]).
-  - (* custody send *)
-    unfold Custody.step in E. destruct (ante H minrew s (OSend sg to amt pw rew h)); simpl in E; try discriminate.
-    unfold bind in E. destruct (amt <=? 0); [discriminate|].
-    match type of E with (match ?p with _ => _ end) = _ => destruct p as [pooled| |] eqn:Ep; try discriminate end.
-    destruct pooled.
-    + inversion E; subst. intros t p h' tx E1 E2.
-      destruct (Z.eq_dec t sg) as [->|Hn].
-      * rewrite pool_of_setA_same in E1. simpl in E1. inversion E1; subst. simpl in E2.
-        destruct (String.eqb h' h); inversion E2; subst. simpl. apply count_marks_nonneg.
-      * rewrite pool_of_setA_other in E1 by assumption. exact (Inv t p h' tx E1 E2).
-    + apply (votes_inv_weaken s s' (send_pool _ _ _ _ _ E)); [intros; rewrite (send_marks _ _ _ _ _ E); lia|exact Inv].
-  - (* approve *)
-    unfold Custody.step in E. destruct (ante H minrew s (OApprove f t h)); simpl in E; try discriminate.
-    unfold bind, rec_missing in E.
-    destruct (mark_get f t h (marks s)) eqn:Hm; [inversion E; subst; exact Inv|].
-    destruct (a_pool (getA s t)) as [p|] eqn:Hp; [|discriminate].
-    destruct (pool_get (to_lower h) p) as [tx|] eqn:Hg; [|discriminate].
-    destruct (a_cust (getA s t)) as [c|]; [|discriminate].
-    destruct (t_rew tx) as [|r0 rr]; [discriminate|].
-    destruct (map_len c =? 0); [discriminate|].
-    destruct (send s t f (Z.quot r0 (map_len c))) as [s1| |] eqn:E1; try discriminate.
-    match type of E with (if ?b then _ else _) = _ => destruct b end.
-    + destruct (send (add_mark s1 f t h 1) t (t_to tx) (t_amt tx)) as [s3| |] eqn:E3; try discriminate.
-      inversion E; subst. intros u q h' tx' Q1 Q2.
-      assert (Mk : marks (store_pool s3 t (pool_del (to_lower h) p)) = (f, t, h, 1) :: marks s).
-      { rewrite store_pool_marks, (send_marks _ _ _ _ _ E3). simpl. rewrite (send_marks _ _ _ _ _ E1). reflexivity. }
-      rewrite Mk. eapply Z.le_trans; [|apply count_marks_cons_ge].
-      destruct (Z.eq_dec u t) as [->|Hn].
-      * rewrite pool_of_store_same in Q1. inversion Q1; subst. apply pool_get_del_some in Q2.
-        exact (Inv t p h' tx' Hp Q2).
-      * rewrite pool_of_store_other in Q1 by assumption.
-        rewrite (send_pool _ _ _ _ _ E3), pool_of_add_mark, (send_pool _ _ _ _ _ E1) in Q1.
-        exact (Inv u q h' tx' Q1 Q2).
-    + inversion E; subst. intros u q h' tx' Q1 Q2.
-      assert (Mk : marks (store_pool (add_mark s1 f t h 1) t (pool_set (to_lower h) (tx_votes tx (t_votes tx + 1)) p)) = (f, t, h, 1) :: marks s).
-      { rewrite store_pool_marks. simpl. rewrite (send_marks _ _ _ _ _ E1). reflexivity. }
-      rewrite Mk.
-      destruct (Z.eq_dec u t) as [->|Hn].
-      * rewrite pool_of_store_same in Q1. inversion Q1; subst. rewrite pool_get_set in Q2.
-        destruct (String.eqb h' (to_lower h)) eqn:Eh.
-        -- apply String.eqb_eq in Eh; subst h'. inversion Q2; subst. simpl.
-           rewrite count_marks_cons_hit. specialize (Inv t p (to_lower h) tx Hp Hg). lia.
-        -- eapply Z.le_trans; [|apply count_marks_cons_ge]. exact (Inv t p h' tx' Hp Q2).
-      * rewrite pool_of_store_other in Q1 by assumption. rewrite pool_of_add_mark, (send_pool _ _ _ _ _ E1) in Q1.
-        eapply Z.le_trans; [|apply count_marks_cons_ge]. exact (Inv u q h' tx' Q1 Q2).
-  - (* decline *)
-    unfold Custody.step in E. destruct (ante H minrew s (ODecline f t h)); simpl in E; try discriminate.
-    unfold bind in E.
-    repeat (dmatch_in E; try discriminate); try (inversion E; subst; exact Inv).
-    apply (votes_inv_weaken (add_mark s f t h (-1)) s' (send_pool _ _ _ _ _ E)).
-    + intros; rewrite (send_marks _ _ _ _ _ E); lia.
-    + intros u q h' tx' Q1 Q2. simpl. eapply Z.le_trans; [|apply count_marks_cons_ge]. exact (Inv u q h' tx' Q1 Q2).
-  - (* confirm *)
-    unfold Custody.step in E. destruct (ante H minrew s (OConfirm f t h p ph)); simpl in E; try discriminate.
-    unfold bind, rec_missing in E.
-    destruct (a_pool (getA s t)) as [pl|] eqn:Hp.
-    2:{ simpl in E. repeat (dmatch_in E; try discriminate). }
-    destruct (pool_get (to_lower h) pl) as [tx|] eqn:Hg; simpl in E.
-    2:{ repeat (dmatch_in E; try discriminate). }
-    repeat (dmatch_in E; try discriminate); inversion E; subst; intros u q h' tx' Q1 Q2;
-      try (rewrite store_pool_marks);
-      repeat match goal with X : send _ _ _ _ = Ok _ |- _ => pose proof (send_marks _ _ _ _ _ X); pose proof (send_pool _ _ _ _ _ X); clear X end;
-      (destruct (Z.eq_dec u t) as [->|Hn];
-       [ rewrite pool_of_store_same in Q1; inversion Q1; subst;
-         first [ apply pool_get_del_some in Q2; try (match goal with X : marks _ = marks _ |- _ => rewrite X end); exact (Inv t pl h' tx' Hp Q2)
-               | rewrite pool_get_set in Q2; destruct (String.eqb h' (to_lower h)) eqn:Eh;
-                 [ apply String.eqb_eq in Eh; subst h'; inversion Q2; subst; simpl; exact (Inv t pl (to_lower h) tx Hp Hg)
-                 | exact (Inv t pl h' tx' Hp Q2) ] ]
-       | rewrite pool_of_store_other in Q1 by assumption;
-         try (match goal with X : forall t, pool_of _ t = pool_of _ t |- _ => rewrite X in Q1 end);
-         try (match goal with X : marks _ = marks _ |- _ => rewrite X end);
-         exact (Inv u q h' tx' Q1 Q2) ]).
+  intros s o s' x E Hp. destruct (step_inv _ _ _ _ _ _ E) as (s1 & Ea & Eh).
+  pose proof (handle_nondec _ _ _ _ Eh Hp) as N. intros d. specialize (N d).
+  destruct (ante_fields _ _ _ _ _ _ x Ea) as (_ & _ & _ & _ & _ & Eb). rewrite Eb in N. exact N.
 Qed.
 
-Lemma votes_inv_run : forall ops s, votes_inv s -> votes_inv (run H minrew s ops).
+(* coins never leave an account in a step in which it is not the payer: the outflow clause never fires *)
+Lemma out_sound : forall n s o s', step v H minrew s o = Ok s' -> out_clauses n s s' o = [].
 Proof.
-  induction ops as [|o ops IH]; intros s Inv; simpl; auto. apply IH.
-  unfold Custody.exec. destruct (step H minrew s o) eqn:E; auto. eapply votes_inv_step; eauto.
+  intros n s o s' E. unfold out_clauses. cbv zeta.
+  induction (seq 0 n) as [|i l IH]; simpl; [reflexivity|]. rewrite IH, app_nil_r.
+  destruct (guarded (getA s (Z.of_nat i)) && (0 <? n_cust (getA s (Z.of_nat i)))); simpl; [|reflexivity].
+  destruct (dec (getA s (Z.of_nat i)) (getA s' (Z.of_nat i))) eqn:Ed; [|reflexivity].
+  assert (P : payer o = Some (Z.of_nat i)).
+  { destruct (option_eq_dec (payer o) (Some (Z.of_nat i))) as [P|P]; [exact P|].
+    rewrite (dec_nondec _ _ _ (step_nondec _ _ _ _ E P)) in Ed. discriminate. }
+  destruct o; simpl in P; try discriminate; inversion P; subst; rewrite Z.eqb_refl; reflexivity.
+Qed.
+End Outflow.
+
+(* ================================================================ 6. the invariant tying the checker's log to the model's state *)
+Definition log_marks (lg : log) (s : state) : Prop :=
+  forall f t h, in3 f t h (l_appr lg) || in3 f t h (l_decl lg) = true -> mark_get f t h (marks s) <> None.
+Definition log_votes (lg : log) (s : state) : Prop :=
+  forall t p h tx, pool_of s t = Some p -> pool_get h p = Some tx -> 0 <= t_votes tx <= count_appr t h (l_appr lg).
+Definition log_conf (lg : log) (s : state) : Prop :=
+  forall t p h tx, pool_of s t = Some p -> pool_get h p = Some tx -> t_conf tx = true -> in2 t h (l_conf lg) = true.
+Definition stat_inv (s : state) : Prop :=
+  forall x st d a tm, a_stat (getA s x) = Some st -> alist_get d st = Some (a, tm) -> 0 <= a.
+Definition Inv (lg : log) (s : state) : Prop := log_marks lg s /\ log_votes lg s /\ log_conf lg s /\ stat_inv s.
+
+Definition log_le (lg lg1 : log) : Prop :=
+  (forall t h, count_appr t h (l_appr lg) <= count_appr t h (l_appr lg1)) /\
+  (forall t h, in2 t h (l_conf lg) = true -> in2 t h (l_conf lg1) = true).
+Lemma log_le_refl : forall lg, log_le lg lg.
+Proof. intros; split; intros; auto; lia. Qed.
+Lemma log_le_appr : forall lg e, log_le lg (mkLog (e :: l_appr lg) (l_decl lg) (l_conf lg)).
+Proof. intros; split; simpl; intros; auto. apply count_appr_cons_ge. Qed.
+Lemma log_le_decl : forall lg e, log_le lg (mkLog (l_appr lg) (e :: l_decl lg) (l_conf lg)).
+Proof. intros; split; simpl; intros; auto. lia. Qed.
+Lemma log_le_conf : forall lg e, log_le lg (mkLog (l_appr lg) (l_decl lg) (e :: l_conf lg)).
+Proof. intros; split; simpl; intros; [lia|]. apply in2_cons; assumption. Qed.
+
+Lemma mark_get_cons_mono : forall f t h e l, mark_get f t h l <> None -> mark_get f t h (e :: l) <> None.
+Proof.
+  intros f t h [[[f' t'] h'] x] l Hn. destruct (mark_eqb f t h (f', t', h', x)) eqn:E.
+  - apply mark_eqb_true in E. destruct E as (-> & -> & ->). rewrite mark_get_cons_same. discriminate.
+  - rewrite mark_get_cons_other; auto.
 Qed.
 
-Lemma init_pool_none : forall bals t, pool_of (init_state bals) t = None.
+(* the pool of one account is replaced; the log grows *)
+Lemma Inv_pool_update : forall lg lg1 s s' t p',
+  Inv lg s -> log_le lg lg1 -> log_marks lg1 s' ->
+  pool_of s' t = Some p' -> (forall u, u <> t -> pool_of s' u = pool_of s u) ->
+  (forall h tx, pool_get h p' = Some tx -> 0 <= t_votes tx <= count_appr t h (l_appr lg1) /\ (t_conf tx = true -> in2 t h (l_conf lg1) = true)) ->
+  (forall u, a_stat (getA s' u) = a_stat (getA s u)) ->
+  Inv lg1 s'.
 Proof.
-  intros bals t. unfold pool_of, getA, init_state. simpl.
-  generalize (seq 0 (List.length bals)). induction bals as [|b bals IH]; intros [|k ks]; simpl; auto.
-  destruct (t =? Z.of_nat k); auto.
+  intros lg lg1 s s' t p' (I1 & I2 & I3 & I4) (L1 & L2) M Pt Po V S.
+  split; [exact M|]. split; [|split].
+  - intros u q h tx Q1 Q2. destruct (Z.eq_dec u t) as [->|Hn].
+    + rewrite Pt in Q1. inversion Q1; subst. apply (V h tx Q2).
+    + rewrite Po in Q1 by assumption. specialize (I2 u q h tx Q1 Q2). specialize (L1 u h). lia.
+  - intros u q h tx Q1 Q2 Q3. destruct (Z.eq_dec u t) as [->|Hn].
+    + rewrite Pt in Q1. inversion Q1; subst. apply (V h tx Q2); assumption.
+    + rewrite Po in Q1 by assumption. apply L2. exact (I3 u q h tx Q1 Q2 Q3).
+  - intros x st d a tm Q1 Q2. rewrite S in Q1. exact (I4 x st d a tm Q1 Q2).
 Qed.
 
-Lemma votes_bounded_by_marks : forall bals ops t p h tx,
-  let s := run H minrew (init_state bals) ops in
-  a_pool (getA s t) = Some p -> pool_get h p = Some tx -> t_votes tx <= count_marks t h (marks s).
+(* no pool changes; the log grows *)
+Lemma Inv_same_pools : forall lg lg1 s s',
+  Inv lg s -> log_le lg lg1 -> log_marks lg1 s' ->
+  (forall u, pool_of s' u = pool_of s u) -> (forall u, a_stat (getA s' u) = a_stat (getA s u)) -> Inv lg1 s'.
 Proof.
-  intros bals ops t p h tx s E1 E2.
-  assert (Inv : votes_inv s).
-  { apply votes_inv_run. intros u q h' tx' Q. rewrite init_pool_none in Q. discriminate. }
-  exact (Inv t p h tx E1 E2).
+  intros lg lg1 s s' (I1 & I2 & I3 & I4) (L1 & L2) M P S.
+  split; [exact M|]. split; [|split].
+  - intros u q h tx Q1 Q2. rewrite P in Q1. specialize (I2 u q h tx Q1 Q2). specialize (L1 u h). lia.
+  - intros u q h tx Q1 Q2 Q3. rewrite P in Q1. apply L2. exact (I3 u q h tx Q1 Q2 Q3).
+  - intros x st d a tm Q1 Q2. rewrite S in Q1. exact (I4 x st d a tm Q1 Q2).
 Qed.
 
-(* a pay-out at an approval: the counter including this vote reaches the configured share, and the
-   Confirmed flag is set when a password is in use *)
-Lemma approve_release_needs_counter : forall s f t h s' st c p tx,
-  step H minrew s (OApprove f t h) = Ok s' ->
-  mark_get f t h (marks s) = None ->
-  a_set (getA s t) = Some st -> s_en st = true -> a_cust (getA s t) = Some c ->
-  a_pool (getA s t) = Some p -> pool_get (to_lower h) p = Some tx ->
-  (match a_pool (getA s' t) with Some p' => pool_get (to_lower h) p' | None => None end) = None ->
-  s_mode st <= Z.quot ((t_votes tx + 1) * 100) (map_len c) /\ (s_pwd st = true -> t_conf tx = true).
+Lemma log_marks_same : forall lg s s', log_marks lg s -> marks s' = marks s -> log_marks lg s'.
+Proof. intros lg s s' M E f t h X. rewrite E. exact (M f t h X). Qed.
+Lemma log_marks_cons : forall lg s s' e, log_marks lg s -> marks s' = e :: marks s -> log_marks lg s'.
+Proof. intros lg s s' e M E f t h X. rewrite E. apply mark_get_cons_mono. exact (M f t h X). Qed.
+Lemma log_marks_appr : forall lg s s' f t h x, log_marks lg s -> marks s' = (f, t, h, x) :: marks s ->
+  log_marks (mkLog ((f, t, h) :: l_appr lg) (l_decl lg) (l_conf lg)) s'.
 Proof.
-  intros s f t h s' st c p tx E Hm Hs He Hc Hp Hg Hafter.
-  unfold Custody.step in E. destruct (ante H minrew s (OApprove f t h)); simpl in E; try discriminate.
-  unfold bind, rec_missing in E. rewrite Hm, Hp, Hg, Hc, Hs, He in E.
-  destruct (t_rew tx) as [|r0 rr]; [discriminate|].
-  destruct (map_len c =? 0) eqn:En; [discriminate|].
-  assert (Hn : 0 <? map_len c = true) by (unfold map_len in *; lia).
-  rewrite Hn in E. simpl andb in E.
-  destruct (send s t f (Z.quot r0 (map_len c))) as [s1| |] eqn:E1; try discriminate.
-  destruct (s_mode st <=? Z.quot ((t_votes tx + 1) * 100) (map_len c)) eqn:Em; simpl andb in E.
-  - destruct (s_pwd st) eqn:Ew.
-    + destruct (t_conf tx) eqn:Ec.
-      * split; [lia|auto].
-      * exfalso. inversion E; subst. fold (pool_of (store_pool (add_mark s1 f t h 1) t (pool_set (to_lower h) (tx_votes tx (t_votes tx + 1)) p)) t) in Hafter.
-        rewrite pool_of_store_same, pool_get_set, String.eqb_refl in Hafter. discriminate.
-    + split; [lia|discriminate].
-  - exfalso. inversion E; subst. fold (pool_of (store_pool (add_mark s1 f t h 1) t (pool_set (to_lower h) (tx_votes tx (t_votes tx + 1)) p)) t) in Hafter.
-    rewrite pool_of_store_same, pool_get_set, String.eqb_refl in Hafter. discriminate.
+  intros lg s s' f t h x M E f' t' h' X. simpl in X. rewrite E.
+  apply orb_prop in X. destruct X as [X|X].
+  - apply in3_cons_inv in X. destruct X as [(-> & -> & ->)|X].
+    + rewrite mark_get_cons_same. discriminate.
+    + apply mark_get_cons_mono. apply M. rewrite X. reflexivity.
+  - apply mark_get_cons_mono. apply M. rewrite X. apply orb_true_r.
 Qed.
-End Inv.
-
-(* ================================================================ 9. non-vacuity *)
-Lemma nonvacuous_guarded :
-  let s := w_run (w_setup 100 false) in
-  exists st c, a_set (getA s 0) = Some st /\ s_en st = true /\ a_cust (getA s 0) = Some c /\ c <> [].
+Lemma log_marks_decl : forall lg s s' f t h x, log_marks lg s -> marks s' = (f, t, h, x) :: marks s ->
+  log_marks (mkLog (l_appr lg) ((f, t, h) :: l_decl lg) (l_conf lg)) s'.
 Proof.
-  exists (mkSet true 100 false false false "K3" (-1)), [(2, true); (3, true)].
-  vm_compute. repeat split; try reflexivity. discriminate.
+  intros lg s s' f t h x M E f' t' h' X. simpl in X. rewrite E.
+  apply orb_prop in X. destruct X as [X|X].
+  - apply mark_get_cons_mono. apply M. rewrite X. reflexivity.
+  - apply in3_cons_inv in X. destruct X as [(-> & -> & ->)|X].
+    + rewrite mark_get_cons_same. discriminate.
+    + apply mark_get_cons_mono. apply M. rewrite X. apply orb_true_r.
 Qed.
 
-Lemma nonvacuous_approval :
-  let s := w_run (app (w_setup 100 false) [w_send]) in exec Hid 200 s (OApprove 2 0 "ab12cd34") <> s.
+Lemma voted_refl : forall s, voted s s = false.
+Proof. intros. unfold voted. rewrite Nat.eqb_refl. reflexivity. Qed.
+Lemma voted_same : forall s s', marks s' = marks s -> voted s s' = false.
+Proof. intros s s' E. unfold voted. rewrite E, Nat.eqb_refl. reflexivity. Qed.
+Lemma voted_cons : forall s s' e, marks s' = e :: marks s -> voted s s' = true.
 Proof.
-  cbv zeta. intros E.
-  assert (X : a_bal (getA (exec Hid 200 (w_run (app (w_setup 100 false) [w_send])) (OApprove 2 0 "ab12cd34")) 2)
-              = a_bal (getA (w_run (app (w_setup 100 false) [w_send])) 2)) by (rewrite E; reflexivity).
-  vm_compute in X. discriminate.
+  intros s s' e E. unfold voted. rewrite E. simpl List.length.
+  destruct (Nat.eqb (List.length (marks s)) (S (List.length (marks s)))) eqn:X; auto. apply Nat.eqb_eq in X. lia.
 Qed.
 
-(* ================================================================ 10. over every history of the model the checker never reports a plain bank send *)
-Definition bank_clause_free (c : string) : Prop :=
-  c <> "blocked:bank_send"%string /\ c <> "whitelist:bank_send"%string /\ c <> "limits:bank_send"%string.
+Lemma released_gone : forall s s' t h p tx p',
+  pool_of s t = Some p -> pool_get h p = Some tx -> pool_of s' t = Some p' -> pool_get h p' = None ->
+  released s s' t h = Some tx.
+Proof. unfold released, pool_of. intros s s' t h p tx p' E1 E2 E3 E4. rewrite E1, E2, E3, E4. reflexivity. Qed.
 
-Ltac lit :=
+(* the share arithmetic: the counter reached the share of the map, the log has at least the counter *)
+Lemma threshold_ok : forall mode V n nc cnt,
+  mode <= Z.quot (V * 100) n -> 0 <= V -> 0 < n -> 0 <= nc <= n -> V <= cnt -> (cnt * 100 <? mode * nc) = false.
+Proof.
+  intros mode V n nc cnt Hq HV Hn Hnc Hc.
+  assert (n * Z.quot (V * 100) n <= V * 100) by (apply Z.mul_quot_le; lia).
+  destruct (Z_lt_le_dec mode 0); nia.
+Qed.
+
+Lemma wl_lim_custody_residual : forall a to amt c, In c (wl_lim_clauses a to amt "custody_send") -> residual c = true.
+Proof.
+  intros a to amt c Hin. unfold wl_lim_clauses in Hin.
   repeat match goal with
   | X : In _ (_ ++ _) |- _ => apply in_app_or in X; destruct X as [X|X]
   | X : In _ (if ?b then _ else _) |- _ => destruct b
   | X : In _ (match ?x with _ => _ end) |- _ => destruct x
   | X : In _ [] |- _ => destruct X
-  | X : In _ (_ :: _) |- _ => destruct X as [X|X]; [subst; unfold bank_clause_free, cl, cl3; simpl; repeat split; discriminate|]
+  | X : In _ (_ :: _) |- _ => destruct X as [X|X]; [subst; reflexivity|]
   end.
+Qed.
+Lemma path_multisend_residual : forall a to amt c, In c (path_clauses a to amt "multisend") -> residual c = true.
+Proof.
+  intros a to amt c Hin. unfold path_clauses, wl_lim_clauses in Hin.
+  repeat match goal with
+  | X : In _ (_ ++ _) |- _ => apply in_app_or in X; destruct X as [X|X]
+  | X : In _ (if ?b then _ else _) |- _ => destruct b
+  | X : In _ (match ?x with _ => _ end) |- _ => destruct x
+  | X : In _ [] |- _ => destruct X
+  | X : In _ (_ :: _) |- _ => destruct X as [X|X]; [subst; reflexivity|]
+  end.
+Qed.
 
-Lemma fst_let_pair : forall (X : list string * log) (A B : list string),
-  fst (let '(c, l) := X in (A ++ B ++ c, l)) = (A ++ B) ++ fst X.
-Proof. intros [c l] A B; simpl. apply app_assoc. Qed.
+(* ================================================================ 7. soundness of the checker on the repaired variant, operation by operation *)
+Definition sound_step (n : nat) (lg : log) (s s' : state) (o : op) : Prop :=
+  (forall c, In c (fst (op_clauses n lg s s' o)) -> residual c = true) /\ Inv (snd (op_clauses n lg s s' o)) s'.
 
-Section ChkHistory.
+Section Sound.
+Variable v : variant.
+Hypothesis Hco : v_cust_only v = true.
+Hypothesis Hlo : v_lower v = true.
+Hypothesis Hpw : v_pwd v = true.
 Variable H : string -> string.
 Variable minrew : Z.
 
-Lemma step_clauses_no_bank : forall n lg s o s1 c,
-  step H minrew s o = Ok s1 -> In c (fst (step_clauses n lg s (compact n s1) o)) -> bank_clause_free c.
+Lemma release_clauses_ok : forall lg s t h tx V kind,
+  0 <= V -> V <= count_appr t h (l_appr lg) ->
+  (forall st, a_set (getA s t) = Some st -> s_en st = true -> 0 < n_cust (getA s t) ->
+     exists c, a_cust (getA s t) = Some c /\ 0 < map_len c /\ s_mode st <= Z.quot (V * 100) (map_len c)) ->
+  (forall st, a_set (getA s t) = Some st -> s_pwd st = true -> in2 t h (l_conf lg) = true) ->
+  forall x, In x (release_clauses lg s t h tx V kind) -> residual x = true.
 Proof.
-  intros n lg s o s1 c Es Hin. unfold step_clauses in Hin. cbv zeta in Hin.
-  rewrite fst_let_pair in Hin.
+  intros lg s t h tx V kind HV Hcnt HC HP x Hin.
+  unfold release_clauses in Hin. cbv zeta in Hin.
   apply in_app_or in Hin. destruct Hin as [Hin|Hin].
-  - apply in_app_or in Hin. destruct Hin as [Hin|Hin]; apply in_flat_map in Hin; destruct Hin as (i & _ & Hin).
-    + destruct o as [| | |w ? ? ?|w ? ? ?|w ? ?| | | | | | | | |]; try destruct w; simpl kind_name in Hin; lit.
-    + destruct o as [| | |w ? ? ?|w ? ? ?|w ? ?| | | | | | | | |]; try destruct w; simpl kind_name in Hin; cbv iota beta in Hin; lit.
-  - destruct o as [| | |w ? ? ?|w ? ? ?|w ? ?| | | | | | | | |]; try destruct w; cbv iota beta in Hin; simpl kind_name in Hin;
-      repeat match type of Hin with
-             | In _ (fst (if ?b then _ else _)) => destruct b
-             | In _ (fst (match ?x with _ => _ end)) => destruct x
-             end;
-      simpl fst in Hin; try contradiction;
-      (* plain bank send: the decorator's checks are exactly what the checker asks for *)
-      try (rewrite (chk_bank_sound H minrew _ _ _ _ _ Es) in Hin; contradiction);
-      unfold release_clauses, path_clauses, wl_lim_clauses in Hin; lit.
+  - exfalso. unfold guarded in Hin. destruct (a_set (getA s t)) as [st|] eqn:Hs; [|destruct Hin].
+    destruct (s_en st) eqn:He; [|destruct Hin]. simpl andb in Hin.
+    destruct (0 <? n_cust (getA s t)) eqn:Hnc; [|destruct Hin].
+    destruct (HC st eq_refl He ltac:(apply Z.ltb_lt; exact Hnc)) as (c & Hc & Hn & Hm).
+    rewrite (threshold_ok (s_mode st) V (map_len c) (n_cust (getA s t)) (count_appr t h (l_appr lg))) in Hin; auto.
+    split; [apply n_cust_nonneg|apply n_cust_le_map_len; assumption].
+  - apply in_app_or in Hin. destruct Hin as [Hin|Hin].
+    + exfalso. unfold flag in Hin. destruct (a_set (getA s t)) as [st|] eqn:Hs; [|destruct Hin].
+      destruct (s_pwd st) eqn:Hw; [|destruct Hin]. rewrite (HP st eq_refl Hw) in Hin. destruct Hin.
+    + eapply wl_lim_custody_residual; eauto.
 Qed.
 
-Lemma trace_no_bank : forall ops n lg s c,
-  In c (trace_clauses n lg s (model_trace H minrew n s ops)) -> bank_clause_free c.
+Lemma sound_approve : forall n lg s f t hraw s',
+  Inv lg s -> handle v s (OApprove f t hraw) = Ok s' -> sound_step n lg s s' (OApprove f t hraw).
 Proof.
-  induction ops as [|o ops IH]; intros n lg s c Hin; simpl in Hin; [contradiction|].
-  destruct (step H minrew s o) as [s1|e|e] eqn:Es; unfold Custody.exec in Hin; rewrite Es in Hin; simpl outcome_code in Hin.
-  - simpl Z.eqb in Hin. cbv iota in Hin.
-    destruct (step_clauses n lg s (compact n s1) o) as [cs lg'] eqn:Esc.
-    apply in_app_or in Hin. destruct Hin as [Hin|Hin].
-    + eapply step_clauses_no_bank; [exact Es|]. rewrite Esc. exact Hin.
-    + eapply IH; exact Hin.
-  - simpl Z.eqb in Hin. cbv iota in Hin. apply in_app_or in Hin. destruct Hin as [Hin|Hin]; [lit|eapply IH; exact Hin].
-  - simpl Z.eqb in Hin. cbv iota in Hin. apply in_app_or in Hin. destruct Hin as [Hin|Hin]; [lit|eapply IH; exact Hin].
+  intros n lg s f t hraw s' I E. pose proof I as (I1 & I2 & I3 & I4).
+  simpl in E. unfold voter_ok, mark_key in E. rewrite Hco, Hlo in E. unfold bind, rec_missing in E.
+  destruct (a_cust (getA s t)) as [c|] eqn:Hc; [|discriminate].
+  destruct (bool_at f c) eqn:Hb; [|discriminate]. simpl negb in E. cbv iota in E.
+  pose proof (bool_at_is_custodian _ _ _ Hc Hb) as Hisc.
+  unfold sound_step, op_clauses. cbv zeta. rewrite Hisc. simpl negb. simpl andb.
+  destruct (mark_get f t (to_lower hraw) (marks s)) eqn:Hm.
+  - (* already marked: nothing happens *)
+    inversion E; subst s'. rewrite voted_refl, !andb_false_r, released_same_pool by reflexivity.
+    split; [intros c0 []|exact I].
+  - destruct (in3 f t (to_lower hraw) (l_appr lg) || in3 f t (to_lower hraw) (l_decl lg)) eqn:Hd;
+      [exfalso; exact (I1 _ _ _ Hd Hm)|].
+    destruct (a_pool (getA s t)) as [p|] eqn:Hp; [|discriminate].
+    destruct (pool_get (to_lower hraw) p) as [tx|] eqn:Hg; [|discriminate].
+    destruct (t_rew tx) as [|[rd r0] rr]; [discriminate|].
+    destruct (map_len c =? 0) eqn:En; [discriminate|].
+    destruct (Z.quot r0 (map_len c) <? 0); [discriminate|].
+    destruct (send s t f (one_coin rd (Z.quot r0 (map_len c)))) as [s1| |] eqn:E1; try discriminate.
+    assert (Hn : 0 < map_len c) by (clear - En; unfold map_len in *; lia).
+    destruct (I2 t p (to_lower hraw) tx Hp Hg) as [Hv0 Hv1].
+    assert (HV1 : 0 <= t_votes tx + 1) by (clear - Hv0; lia).
+    set (lg1 := mkLog ((f, t, to_lower hraw) :: l_appr lg) (l_decl lg) (l_conf lg)).
+    assert (Hcnt : t_votes tx + 1 <= count_appr t (to_lower hraw) (l_appr lg1)).
+    { unfold lg1. simpl l_appr. rewrite count_appr_cons_hit. clear - Hv1. lia. }
+    match type of E with (if ?b then _ else _) = _ => destruct b eqn:Eb end.
+    + (* paid out *)
+      destruct (send (add_mark s1 f t (to_lower hraw) 1) t (t_to tx) (t_amt tx)) as [s3| |] eqn:E3; try discriminate.
+      inversion E; subst s'. clear E.
+      assert (Mk : marks (store_pool s3 t (pool_del (to_lower hraw) p)) = (f, t, to_lower hraw, 1) :: marks s).
+      { rewrite store_pool_marks, (send_marks _ _ _ _ _ E3). simpl. rewrite (send_marks _ _ _ _ _ E1). reflexivity. }
+      assert (Po : forall u, u <> t -> pool_of (store_pool s3 t (pool_del (to_lower hraw) p)) u = pool_of s u).
+      { intros u Hu. rewrite pool_of_store_other by assumption. unfold pool_of.
+        rewrite (proj1 (send_frame _ _ _ _ _ E3 u)), add_mark_frame, (proj1 (send_frame _ _ _ _ _ E1 u)). reflexivity. }
+      assert (St : forall u, a_stat (getA (store_pool s3 t (pool_del (to_lower hraw) p)) u) = a_stat (getA s u)).
+      { intros u. rewrite stat_store_pool, (proj2 (send_frame _ _ _ _ _ E3 u)), add_mark_frame, (proj2 (send_frame _ _ _ _ _ E1 u)). reflexivity. }
+      rewrite (voted_cons _ _ _ Mk). simpl andb. cbv iota.
+      rewrite (released_gone s _ t (to_lower hraw) p tx _ Hp Hg (pool_of_store_same _ _ _) (pool_get_del_same _ _)).
+      simpl fst. simpl snd. fold lg1. split.
+      * intros x Hin. simpl in Hin.
+        apply (release_clauses_ok lg1 s t (to_lower hraw) tx (t_votes tx + 1) "approve" HV1 Hcnt); [| |exact Hin].
+        -- intros st Hs He _. exists c. split; [exact Hc|]. split; [exact Hn|]. rewrite Hs, He in Eb. assert (X : 0 <? map_len c = true) by (apply Z.ltb_lt; exact Hn). rewrite X in Eb. simpl andb in Eb.
+           apply andb_prop in Eb. destruct Eb as [Eb _]. apply Z.leb_le in Eb. exact Eb.
+        -- intros st Hs Hw. rewrite Hs, Hw in Eb. apply andb_prop in Eb. destruct Eb as [_ Eb].
+           unfold lg1. simpl l_conf. exact (I3 t p (to_lower hraw) tx Hp Hg Eb).
+      * apply (Inv_pool_update lg lg1 s _ t (pool_del (to_lower hraw) p) I (log_le_appr _ _) (log_marks_appr _ _ _ _ _ _ _ I1 Mk)
+                 (pool_of_store_same _ _ _) Po); [|exact St].
+        intros h' tx' Q. apply pool_get_del_some in Q. destruct (I2 t p h' tx' Hp Q) as [A B]. split.
+        -- pose proof (count_appr_cons_ge t h' (f, t, to_lower hraw) (l_appr lg)) as G. unfold lg1; simpl l_appr. clear - A B G. lia.
+        -- intros Cf. unfold lg1; simpl l_conf. exact (I3 t p h' tx' Hp Q Cf).
+    + (* counted, not yet paid out *)
+      inversion E; subst s'. clear E.
+      set (tx1 := tx_votes tx (t_votes tx + 1)).
+      assert (Mk : marks (store_pool (add_mark s1 f t (to_lower hraw) 1) t (pool_set (to_lower hraw) tx1 p)) = (f, t, to_lower hraw, 1) :: marks s).
+      { rewrite store_pool_marks. simpl. rewrite (send_marks _ _ _ _ _ E1). reflexivity. }
+      assert (Po : forall u, u <> t -> pool_of (store_pool (add_mark s1 f t (to_lower hraw) 1) t (pool_set (to_lower hraw) tx1 p)) u = pool_of s u).
+      { intros u Hu. rewrite pool_of_store_other by assumption. unfold pool_of.
+        rewrite add_mark_frame, (proj1 (send_frame _ _ _ _ _ E1 u)). reflexivity. }
+      assert (St : forall u, a_stat (getA (store_pool (add_mark s1 f t (to_lower hraw) 1) t (pool_set (to_lower hraw) tx1 p)) u) = a_stat (getA s u)).
+      { intros u. rewrite stat_store_pool, add_mark_frame, (proj2 (send_frame _ _ _ _ _ E1 u)). reflexivity. }
+      rewrite (voted_cons _ _ _ Mk). simpl andb. cbv iota.
+      rewrite (released_present s _ t (to_lower hraw) _ tx1 (pool_of_store_same _ _ _)) by (rewrite pool_get_set, String.eqb_refl; reflexivity).
+      simpl fst. simpl snd. fold lg1. split; [intros x []|].
+      apply (Inv_pool_update lg lg1 s _ t (pool_set (to_lower hraw) tx1 p) I (log_le_appr _ _) (log_marks_appr _ _ _ _ _ _ _ I1 Mk)
+               (pool_of_store_same _ _ _) Po); [|exact St].
+      intros h' tx' Q. rewrite pool_get_set in Q. destruct (String.eqb h' (to_lower hraw)) eqn:Eh.
+      * apply String.eqb_eq in Eh; subst h'. inversion Q; subst tx'. unfold tx1, tx_votes. cbn [t_votes t_conf].
+        split; [exact (conj HV1 Hcnt)|]. intros Cf. exact (I3 t p (to_lower hraw) tx Hp Hg Cf).
+      * destruct (I2 t p h' tx' Hp Q) as [A B]. split.
+        -- pose proof (count_appr_cons_ge t h' (f, t, to_lower hraw) (l_appr lg)) as G. unfold lg1; simpl l_appr. clear - A B G. lia.
+        -- intros Cf. unfold lg1; simpl l_conf. exact (I3 t p h' tx' Hp Q Cf).
 Qed.
 
-Lemma chk_bank_sound_history : forall bals ops c, In c (model_clauses H minrew bals ops) ->
-  c <> "blocked:bank_send"%string /\ c <> "whitelist:bank_send"%string /\ c <> "limits:bank_send"%string.
-Proof. intros bals ops c Hin. unfold model_clauses in Hin. exact (trace_no_bank _ _ _ _ _ Hin). Qed.
-End ChkHistory.
+Lemma decline_noop_sound : forall n lg s f t hraw,
+  Inv lg s -> is_custodian (getA s t) f = true -> sound_step n lg s s (ODecline f t hraw).
+Proof.
+  intros n lg s f t hraw I Hisc. unfold sound_step, op_clauses. cbv zeta.
+  rewrite Hisc, voted_refl, !andb_false_r, released_same_pool by reflexivity. simpl. split; [intros x []|exact I].
+Qed.
+
+Lemma sound_decline : forall n lg s f t hraw s',
+  Inv lg s -> handle v s (ODecline f t hraw) = Ok s' -> sound_step n lg s s' (ODecline f t hraw).
+Proof.
+  intros n lg s f t hraw s' I E. pose proof I as (I1 & I2 & I3 & I4).
+  simpl in E. unfold voter_ok, mark_key in E. rewrite Hco, Hlo in E. unfold bind in E.
+  destruct (a_cust (getA s t)) as [c|] eqn:Hc; [|discriminate].
+  destruct (bool_at f c) eqn:Hb; [|discriminate]. simpl negb in E. cbv iota in E.
+  pose proof (bool_at_is_custodian _ _ _ Hc Hb) as Hisc.
+  destruct (mark_get f t (to_lower hraw) (marks s)) eqn:Hm; [inversion E; subst; apply decline_noop_sound; assumption|].
+  repeat (dmatch_in E; try discriminate); try (inversion E; subst; apply decline_noop_sound; assumption).
+  assert (Mk : marks s' = (f, t, to_lower hraw, -1) :: marks s) by (rewrite (send_marks _ _ _ _ _ E); reflexivity).
+  assert (Po : forall u, pool_of s' u = pool_of s u).
+  { intros u. unfold pool_of. rewrite (proj1 (send_frame _ _ _ _ _ E u)). reflexivity. }
+  assert (St : forall u, a_stat (getA s' u) = a_stat (getA s u)).
+  { intros u. rewrite (proj2 (send_frame _ _ _ _ _ E u)). reflexivity. }
+  unfold sound_step, op_clauses. cbv zeta. rewrite Hisc. simpl negb. simpl andb.
+  destruct (in3 f t (to_lower hraw) (l_appr lg) || in3 f t (to_lower hraw) (l_decl lg)) eqn:Hd;
+    [exfalso; exact (I1 _ _ _ Hd Hm)|].
+  rewrite (voted_cons _ _ _ Mk), (released_same_pool s s' t _ (Po t)). simpl.
+  split; [intros x []|].
+  exact (Inv_same_pools lg _ s s' I (log_le_decl _ _) (log_marks_decl _ _ _ _ _ _ _ I1 Mk) Po St).
+Qed.
+
+Lemma sound_confirm : forall n lg s f t hraw pw ph s',
+  Inv lg s -> handle v s (OConfirm f t hraw pw ph) = Ok s' -> sound_step n lg s s' (OConfirm f t hraw pw ph).
+Proof.
+  intros n lg s f t hraw pw ph s' I E. pose proof I as (I1 & I2 & I3 & I4).
+  simpl in E. rewrite Hpw in E. unfold bind, rec_missing in E.
+  destruct (a_pool (getA s t)) as [p|] eqn:Hp; [|repeat (dmatch_in E; try discriminate)].
+  destruct (pool_get (to_lower hraw) p) as [tx|] eqn:Hg; [|simpl in E; repeat (dmatch_in E; try discriminate)].
+  simpl andb in E. destruct (String.eqb pw (t_pw tx)) eqn:Epw; simpl negb in E; cbv iota in E; [|discriminate].
+  simpl option_map in E.
+  destruct (I2 t p (to_lower hraw) tx Hp Hg) as [Hv0 Hv1].
+  set (lg1 := mkLog (l_appr lg) (l_decl lg) ((t, to_lower hraw) :: l_conf lg)).
+  set (r := tx_conf tx true) in *.
+  unfold sound_step, op_clauses. cbv zeta. rewrite Hp, Hg, Epw. simpl orb. cbv iota. fold lg1.
+  match type of E with (match ?a with _ => _ end) = _ => destruct a as [allowC| |] eqn:EC; try discriminate end.
+  match type of E with (match ?a with _ => _ end) = _ => destruct a as [allowP| |] eqn:EP; try discriminate end.
+  destruct (allowC && allowP) eqn:Eb.
+  - (* paid out *)
+    destruct (send s t (t_to r) (t_amt r)) as [s1| |] eqn:E1; try discriminate.
+    inversion E; subst s'. clear E.
+    assert (Mk : marks (store_pool s1 t (pool_del (to_lower hraw) p)) = marks s).
+    { rewrite store_pool_marks. exact (send_marks _ _ _ _ _ E1). }
+    assert (Po : forall u, u <> t -> pool_of (store_pool s1 t (pool_del (to_lower hraw) p)) u = pool_of s u).
+    { intros u Hu. rewrite pool_of_store_other by assumption. unfold pool_of. rewrite (proj1 (send_frame _ _ _ _ _ E1 u)). reflexivity. }
+    assert (St : forall u, a_stat (getA (store_pool s1 t (pool_del (to_lower hraw) p)) u) = a_stat (getA s u)).
+    { intros u. rewrite stat_store_pool, (proj2 (send_frame _ _ _ _ _ E1 u)). reflexivity. }
+    rewrite (released_gone s _ t (to_lower hraw) p tx _ Hp Hg (pool_of_store_same _ _ _) (pool_get_del_same _ _)).
+    simpl fst. simpl snd. split.
+    + intros x Hin. simpl in Hin.
+      apply (release_clauses_ok lg1 s t (to_lower hraw) tx (t_votes tx) "confirm" Hv0 Hv1); [| |exact Hin].
+      * intros st Hs He Hnc. rewrite Hs, He in EC.
+        destruct (a_cust (getA s t)) as [c|] eqn:Hc; [|discriminate].
+        pose proof (n_cust_le_map_len _ _ Hc) as Hle.
+        assert (X : 0 <? map_len c = true) by (apply Z.ltb_lt; clear - Hle Hnc; lia). rewrite X in EC.
+        inversion EC; subst allowC. apply andb_prop in Eb. destruct Eb as [Eb _]. apply Z.leb_le in Eb.
+        exists c. split; [reflexivity|]. split; [apply Z.ltb_lt; exact X|exact Eb].
+      * intros st Hs Hw. unfold lg1. simpl l_conf. apply in2_cons_same.
+    + apply (Inv_pool_update lg lg1 s _ t (pool_del (to_lower hraw) p) I (log_le_conf _ _) (log_marks_same lg1 s _ I1 Mk)
+               (pool_of_store_same _ _ _) Po); [|exact St].
+      intros h' tx' Q. apply pool_get_del_some in Q. destruct (I2 t p h' tx' Hp Q) as [A B]. split; [exact (conj A B)|].
+      intros Cf. unfold lg1; simpl l_conf. apply in2_cons. exact (I3 t p h' tx' Hp Q Cf).
+  - (* confirmed, not yet paid out *)
+    inversion E; subst s'. clear E.
+    assert (Po : forall u, u <> t -> pool_of (store_pool s t (pool_set (to_lower hraw) r p)) u = pool_of s u).
+    { intros u Hu. rewrite pool_of_store_other by assumption. reflexivity. }
+    rewrite (released_present s _ t (to_lower hraw) _ r (pool_of_store_same _ _ _)) by (rewrite pool_get_set, String.eqb_refl; reflexivity).
+    simpl fst. simpl snd. split; [intros x []|].
+    apply (Inv_pool_update lg lg1 s _ t (pool_set (to_lower hraw) r p) I (log_le_conf _ _) (log_marks_same lg1 s _ I1 (store_pool_marks _ _ _))
+             (pool_of_store_same _ _ _) Po); [|intros u; apply stat_store_pool].
+    intros h' tx' Q. rewrite pool_get_set in Q. destruct (String.eqb h' (to_lower hraw)) eqn:Eh.
+    + apply String.eqb_eq in Eh; subst h'. inversion Q; subst tx'. unfold r, tx_conf. cbn [t_votes t_conf].
+      split; [exact (conj Hv0 Hv1)|]. intros _. unfold lg1. simpl l_conf. apply in2_cons_same.
+    + destruct (I2 t p h' tx' Hp Q) as [A B]. split; [exact (conj A B)|].
+      intros Cf. unfold lg1; simpl l_conf. apply in2_cons. exact (I3 t p h' tx' Hp Q Cf).
+Qed.
+
+Lemma sound_send : forall n lg s sg to amt pw rew h s',
+  Inv lg s -> handle v s (OSend sg to amt pw rew h) = Ok s' -> sound_step n lg s s' (OSend sg to amt pw rew h).
+Proof.
+  intros n lg s sg to amt pw rew h s' I E. pose proof I as (I1 & I2 & I3 & I4).
+  simpl in E. unfold bind in E. destruct (negb (coins_ok amt)); [discriminate|].
+  match type of E with (match ?a with _ => _ end) = _ => destruct a as [pooled| |] eqn:EP; try discriminate end.
+  unfold sound_step, op_clauses. cbv zeta.
+  destruct pooled.
+  - (* pooled: nothing moves *)
+    inversion E; subst s'. clear E.
+    rewrite (dec_nondec s _ sg) by (apply nondec_setA; [apply nondec_refl|reflexivity]).
+    simpl fst. simpl snd. split; [intros x []|].
+    apply (Inv_pool_update lg lg s (setA s sg (with_pool (getA s sg) (Some [(h, mkTx to amt pw rew 0 false)]))) sg
+             [(h, mkTx to amt pw rew 0 false)] I (log_le_refl _)
+             (log_marks_same lg s (setA s sg (with_pool (getA s sg) (Some [(h, mkTx to amt pw rew 0 false)]))) I1 eq_refl)
+             (pool_of_setA_same _ _ _) (fun u Hu => pool_of_setA_other _ _ _ _ Hu)).
+    + intros h' tx' Q. simpl in Q. destruct (String.eqb h' h); inversion Q; subst tx'. simpl.
+      split; [split; [lia|apply count_appr_nonneg]|discriminate].
+    + intros u. rewrite getA_setA. destruct (u =? sg) eqn:Eu; auto. assert (u = sg) by lia; subst. reflexivity.
+  - (* paid out directly: only without custodians and without password *)
+    assert (G : guarded (getA s sg) && (0 <? n_cust (getA s sg)) = false /\ flag s_pwd (getA s sg) = false).
+    { unfold guarded, flag. destruct (a_set (getA s sg)) as [st|]; [|auto].
+      destruct (s_en st).
+      - destruct (a_cust (getA s sg)) as [c|] eqn:Hc; [|discriminate]. injection EP as EP'.
+        apply orb_false_elim in EP'. destruct EP' as [X Y]. apply map_len_zero in X. subst c.
+        rewrite (n_cust_nil _ Hc). simpl. split; [reflexivity|exact Y].
+      - injection EP as EP'. simpl. split; [reflexivity|exact EP']. }
+    destruct G as [G1 G2].
+    assert (Po : forall u, pool_of s' u = pool_of s u).
+    { intros u. unfold pool_of. rewrite (proj1 (send_frame _ _ _ _ _ E u)). reflexivity. }
+    assert (St : forall u, a_stat (getA s' u) = a_stat (getA s u)).
+    { intros u. rewrite (proj2 (send_frame _ _ _ _ _ E u)). reflexivity. }
+    split.
+    + destruct (dec (getA s sg) (getA s' sg)); simpl fst; [|intros x []].
+      rewrite G1, G2. simpl app. intros x Hin. eapply wl_lim_custody_residual; exact Hin.
+    + destruct (dec (getA s sg) (getA s' sg)); simpl snd;
+        exact (Inv_same_pools lg lg s s' I (log_le_refl _) (log_marks_same lg s s' I1 (send_marks _ _ _ _ _ E)) Po St).
+Qed.
+
+Lemma sound_multi : forall n lg s sg to amt s',
+  Inv lg s -> handle v s (OMulti sg to amt) = Ok s' -> sound_step n lg s s' (OMulti sg to amt).
+Proof.
+  intros n lg s sg to amt s' I E. pose proof I as (I1 & I2 & I3 & I4).
+  simpl in E. destruct (negb (coins_ok amt)); [discriminate|].
+  assert (Po : forall u, pool_of s' u = pool_of s u).
+  { intros u. unfold pool_of. rewrite (proj1 (send_frame _ _ _ _ _ E u)). reflexivity. }
+  assert (St : forall u, a_stat (getA s' u) = a_stat (getA s u)).
+  { intros u. rewrite (proj2 (send_frame _ _ _ _ _ E u)). reflexivity. }
+  unfold sound_step, op_clauses. cbv zeta. split.
+  - destruct (dec (getA s sg) (getA s' sg)); simpl fst; [|intros x []].
+    intros x Hin. eapply path_multisend_residual; exact Hin.
+  - destruct (dec (getA s sg) (getA s' sg)); simpl snd;
+      exact (Inv_same_pools lg lg s s' I (log_le_refl _) (log_marks_same lg s s' I1 (send_marks _ _ _ _ _ E)) Po St).
+Qed.
+
+(* the nine settings messages touch neither pools, balances, limit statuses nor the vote store *)
+Ltac fr :=
+  first [ apply frame_pbs_setA; first [reflexivity | match goal with w : lst |- _ => destruct w; reflexivity end]
+        | eapply frame_pbs_trans; [eapply set_key_frame; eassumption
+                                  | apply frame_pbs_setA; first [reflexivity | match goal with w : lst |- _ => destruct w; reflexivity end]] ].
+Lemma handle_quiet : forall s o s', handle v s o = Ok s' ->
+  (match o with OSend _ _ _ _ _ _ | OApprove _ _ _ | ODecline _ _ _ | OConfirm _ _ _ _ _ | OBank _ _ _ _ | OMulti _ _ _ => False | _ => True end) ->
+  frame_pbs s s' /\ marks s' = marks s.
+Proof.
+  intros s o s' E Hq.
+  destruct o; try contradiction; simpl in E; unfold bind in E;
+    repeat (dmatch_in E; try discriminate); inversion E; subst;
+    (split; [fr | simpl; try reflexivity; try (eapply set_key_marks; eassumption)]).
+Qed.
+
+Lemma sound_quiet : forall n lg s o s',
+  Inv lg s -> handle v s o = Ok s' ->
+  (match o with OSend _ _ _ _ _ _ | OApprove _ _ _ | ODecline _ _ _ | OConfirm _ _ _ _ _ | OBank _ _ _ _ | OMulti _ _ _ => False | _ => True end) ->
+  sound_step n lg s s' o.
+Proof.
+  intros n lg s o s' I E Hq. pose proof I as (I1 & I2 & I3 & I4).
+  destruct (handle_quiet _ _ _ E Hq) as [F M].
+  assert (X : op_clauses n lg s s' o = ([], lg)) by (destruct o; try contradiction; reflexivity).
+  unfold sound_step. rewrite X. simpl. split; [intros x []|].
+  apply (Inv_same_pools lg lg s s' I (log_le_refl _) (log_marks_same lg s s' I1 M)).
+  - intros u. specialize (F u). unfold pbs in F. injection F as F1 F2 F3. unfold pool_of. exact F1.
+  - intros u. specialize (F u). unfold pbs in F. injection F as F1 F2 F3. exact F3.
+Qed.
+
+(* ---- the repaired limit path: what an accepted fold established *)
+Lemma limits_fold_ok : forall lims now cs st st',
+  limits_fold lims now cs st = Ok st' ->
+  (forall d a tm, alist_get d st = Some (a, tm) -> 0 <= a) ->
+  (forall c, In c cs -> 0 <= snd c) ->
+  existsb (over_limit lims) cs = false /\ (forall d a tm, alist_get d st' = Some (a, tm) -> 0 <= a).
+Proof.
+  induction cs as [|[d amt] r IH]; intros st st' E Hst Hcs; simpl in E.
+  - inversion E; subst. split; [reflexivity|exact Hst].
+  - assert (Hr : forall c, In c r -> 0 <= snd c) by (intros; apply Hcs; right; assumption).
+    assert (Ha : 0 <= amt) by (apply (Hcs (d, amt)); left; reflexivity).
+    simpl existsb. unfold over_limit at 1. simpl fst. simpl snd.
+    destruct (alist_get d lims) as [[cap lim]|] eqn:El.
+    + destruct ((cap =? 0) && String.eqb lim "") eqn:Erm.
+      * simpl. exact (IH st st' E Hst Hr).
+      * destruct (dur_s lim) as [w|]; [|discriminate]. destruct (w <=? 0); [discriminate|].
+        destruct (alist_get d st) as [[a tm]|] eqn:Es.
+        -- pose proof (Hst d a tm Es) as Ha0.
+           destruct (now - tm <? w).
+           ++ destruct (cap <? a + amt) eqn:Ec; [discriminate|].
+              assert (X : (cap <? amt) = false) by (clear - Ec Ha0; lia). rewrite X. simpl.
+              apply (IH _ st' E); [|exact Hr].
+              intros d' a' tm' Q. rewrite alist_get_map_set in Q. destruct (d' =? d); [inversion Q; subst; clear - Ha Ha0; lia|eauto].
+           ++ destruct (cap <? 0 + amt) eqn:Ec; [discriminate|].
+              assert (X : (cap <? amt) = false) by (clear - Ec; lia). rewrite X. simpl.
+              apply (IH _ st' E); [|exact Hr].
+              intros d' a' tm' Q. rewrite alist_get_map_set in Q. destruct (d' =? d); [inversion Q; subst; clear - Ha; lia|eauto].
+        -- destruct (cap <? 0 + amt) eqn:Ec; [discriminate|].
+           assert (X : (cap <? amt) = false) by (clear - Ec; lia). rewrite X. simpl.
+           apply (IH _ st' E); [|exact Hr].
+           intros d' a' tm' Q. rewrite alist_get_map_set in Q. destruct (d' =? d); [inversion Q; subst; clear - Ha; lia|eauto].
+    + simpl. exact (IH st st' E Hst Hr).
+Qed.
+
+Lemma coins_ok_nonneg : forall cs c, coins_ok cs = true -> In c cs -> 0 <= snd c.
+Proof.
+  intros cs c E Hin. destruct cs as [|x cs]; [contradiction|]. unfold coins_ok in E.
+  pose proof (coins_sorted_pos _ _ _ E Hin). lia.
+Qed.
+
+Lemma sound_bank : forall n lg s sg to amt now s',
+  Inv lg s -> step v H minrew s (OBank sg to amt now) = Ok s' -> sound_step n lg s s' (OBank sg to amt now).
+Proof.
+  intros n lg s sg to amt now s' I E. pose proof I as (I1 & I2 & I3 & I4).
+  destruct (step_inv _ _ _ _ _ _ E) as (s1 & Ea & Eh).
+  simpl in Eh. destruct (negb (coins_ok amt)) eqn:Eok; [discriminate|]. apply negb_false_iff in Eok.
+  (* the decorator *)
+  unfold Custody.ante in Ea. cbv zeta in Ea. simpl signer in Ea.
+  match type of Ea with bind ?X _ = _ => destruct X; simpl in Ea; try discriminate end.
+  destruct (ante_bank v (getA s sg) to amt now) as [r| |] eqn:Eb; simpl in Ea; try discriminate.
+  pose proof (ante_bank_ok _ _ _ _ _ _ Eb) as A.
+  assert (Key : path_clauses (getA s sg) to amt "bank_send" = [] /\ stat_inv s1 /\ marks s1 = marks s /\ (forall u, pool_of s1 u = pool_of s u)).
+  { unfold path_clauses, wl_lim_clauses, guarded, flag.
+    destruct (a_set (getA s sg)) as [st|] eqn:Hs.
+    2:{ subst r. inversion Ea; subst s1. repeat split; auto. }
+    destruct A as (A1 & A2 & A3).
+    assert (G : s_en st && (0 <? n_cust (getA s sg)) = false).
+    { destruct (s_en st); [|reflexivity]. rewrite (n_cust_nil _ (A1 eq_refl)). reflexivity. }
+    rewrite G. simpl app.
+    assert (W : (if s_wl st then match a_wl (getA s sg) with Some w => if bool_at to w then [] else [cl "whitelist" "bank_send"] | None => [] end else []) = []).
+    { destruct (s_wl st); [|reflexivity]. destruct (a_wl (getA s sg)) as [w|] eqn:Hl; [|reflexivity]. rewrite (A2 eq_refl w eq_refl). reflexivity. }
+    rewrite W. simpl app.
+    destruct (s_lim st).
+    - destruct A3 as (Hv & st' & Hr & Hf). subst r. inversion Ea; subst s1. clear Ea.
+      destruct (limits_fold_ok _ _ _ _ _ Hf) as [Hover Hst'].
+      + intros d a tm Q. destruct (a_stat (getA s sg)) as [x|] eqn:Hx; [exact (I4 sg x d a tm Hx Q)|discriminate].
+      + intros c Hc. eapply coins_ok_nonneg; eauto.
+      + split; [|split; [|split]].
+        * destruct (a_lim (getA s sg)) as [l|]; [|reflexivity]. rewrite Hover. reflexivity.
+        * intros x stx d a tm Q1 Q2. rewrite getA_setA in Q1. destruct (x =? sg) eqn:Ex.
+          -- simpl in Q1. inversion Q1; subst stx. exact (Hst' d a tm Q2).
+          -- exact (I4 x stx d a tm Q1 Q2).
+        * reflexivity.
+        * intros u. unfold pool_of. rewrite getA_setA. destruct (u =? sg) eqn:Eu; auto. assert (u = sg) by lia; subst. reflexivity.
+    - subst r. inversion Ea; subst s1. repeat split; auto. }
+  destruct Key as (K1 & K2 & K3 & K4).
+  assert (Po : forall u, pool_of s' u = pool_of s u).
+  { intros u. rewrite <- K4. unfold pool_of. rewrite (proj1 (send_frame _ _ _ _ _ Eh u)). reflexivity. }
+  unfold sound_step, op_clauses. cbv zeta. rewrite K1. split.
+  - destruct (dec (getA s sg) (getA s' sg)); simpl fst; intros x [].
+  - assert (V : Inv lg s').
+    { split; [exact (log_marks_same lg s s' I1 ltac:(rewrite (send_marks _ _ _ _ _ Eh); exact K3))|].
+      split; [|split].
+      - intros u q h tx Q1 Q2. rewrite Po in Q1. exact (I2 u q h tx Q1 Q2).
+      - intros u q h tx Q1 Q2 Q3. rewrite Po in Q1. exact (I3 u q h tx Q1 Q2 Q3).
+      - intros x st d a tm Q1 Q2. rewrite (proj2 (send_frame _ _ _ _ _ Eh x)) in Q1. exact (K2 x st d a tm Q1 Q2). }
+    destruct (dec (getA s sg) (getA s' sg)); simpl snd; exact V.
+Qed.
+
+End Sound.
